@@ -20,9 +20,12 @@ import Fcgi.Props.C07Unread3
 import Fcgi.Props.C07Unread4
 import Fcgi.Props.C06
 import Fcgi.Props.C06Suff
+import Fcgi.Props.C06E2E
 import Fcgi.Props.C07
 import Fcgi.Props.C07E2E
 import Fcgi.Props.C07Authorizer
+import Fcgi.Props.C07BufRead
+import Fcgi.Props.C07BufRead2
 import Fcgi.Props.C08
 import Fcgi.Props.C08Inv
 import Fcgi.Props.C09
@@ -36,6 +39,7 @@ import Fcgi.Props.C11Filter
 import Fcgi.Props.C11Filter2
 import Fcgi.Props.C11Filter3
 import Fcgi.Props.C11Filter4
+import Fcgi.Props.C11Filter4Chain
 import Fcgi.Props.C12
 import Fcgi.Props.C12Inv
 import Fcgi.Props.C12Wf
@@ -63,6 +67,7 @@ import Fcgi.Props.C17
 import Fcgi.Props.C18
 import Fcgi.Props.C19
 import Fcgi.Props.C20
+import Fcgi.Props.C12E2E9
 
 /-!
 # Headline — one checked statement per property
@@ -77,6 +82,18 @@ For each of the 20 properties `C01 … C20` (texts in `/verif/properties.jsonl`)
   stated through a named `Prop` such as `C01_full`, that definition's body), with
   `CxxClauseN_holds : CxxClauseN := @<the theorem>`;
 * `Fcgi.Headline.Cxx_headline : Cxx.Clause1 ∧ … ∧ Cxx.ClauseN`.
+
+Revised after the adversarial audit `HEADLINE_REVIEW.md`: conjuncts whose prose claimed more than their
+statement were replaced by theorems that say it (five compositions from `Props/HeadlineExtra.lean` are
+reproved here, since that file imports this one) or their prose was weakened; registered theorems the
+review found missing were added; the 'not proved' lists follow the review's '(3) nothing' items.
+
+Cross-cutting scope of the end-to-end clauses (C07, C09, C11, C12, C14): `Ben t` = a transport without
+error answers (arbitrary read/write splitting, transient Pendings) — faults are C12; `NoiseFits` =
+management GetValues bodies whose undecodable tail fits the buffer; the CANONICAL handler families
+only (named per clause); single request unless a clause says otherwise; side conditions such as
+`4·|input| + 17 ≤ 100000` are artefacts of the proofs, not of the model (the model's fuels grow with
+the input) — they cap those clauses at ≈ 25 000 wire bytes (being lifted in `Props/C07Unbounded.lean`).
 
 So this file type-checks only as long as the cited theorems keep stating what is written here.
 Nothing new is proved.  Everything is about the Lean MODEL of the crate; that the model is the code
@@ -100,16 +117,19 @@ set_option linter.unusedVariables false
 
 **Clause by clause.**
 * “finishes holding exactly the request id, role and flags … and an environment equal to the last-value-wins
-  map (names lossily decoded, uppercased, matched case-insensitively)” — Clause 3 (`C01_fields`) says what
-  `Preamble.request` is; Clause 2 (`C01_oneshot`) that the reference run over the whole wire ends `done`
-  with it and emits exactly `owedPreamble`; lossy UTF-8 decoding is an executed external the theorems are
+  map (names lossily decoded, uppercased, matched case-insensitively)” — Clause 3 (`C01_fields`): `req.env =
+  envExtend [] p.pairs` — the MODEL's own fold; Clause 4 reads that list as a map: lookup by normalised name
+  = the value of the LAST pair with that normalised name (case-insensitivity of the key comparison itself
+  rests on `C19.owned_eq_iff`); Clause 2 (`C01_oneshot`): the reference run over the whole wire ends `done`
+  with it and emits exactly `owedPreamble`.  Lossy UTF-8 decoding is an executed external the theorems are
   parametric in.
 * “does not depend on how the Params payload is cut into records, how much padding each record carries, or
   how the byte stream is cut into reads, provided the buffer satisfies the documented size bound” — Clause 1
   (`C01_full_holds`): `WellFormedPreamble p recs` is ANY segmentation/padding/noise presentation of `p`;
-  `chunks` is any list of non-empty reads each fitting the free buffer space; hypotheses: every pair's
-  encoding ≤ `alignedBufsize b` (the documented bound, see C06 `doc_bound_tight`) and every management
-  GetValues body ≤ the buffer.
+  `chunks` any list of NON-EMPTY reads; the conclusion is conditional on `Spec.feed … = some` (it is `none`
+  only if a chunk exceeds the free space — the caller's precondition — or `parse` panics, excluded by C03
+  Clause 1); hypotheses: every pair's encoding ≤ `alignedBufsize b` (weaker than the documented bound, C06
+  Clause 2) and every management GetValues body ≤ the buffer (scope).
 
 **The conjuncts of `C01_headline`.**
 1. `C01.C01_full_holds` — any segmentation, padding, noise and any legal read chunking within the buffer
@@ -119,6 +139,10 @@ set_option linter.unusedVariables false
    replies exactly `owedPreamble`
 3. `C01.C01_fields` — the fields of the spec request: id, role, flags as sent; environment = last-value-wins
    fold of the normalised pairs
+4. `HeadlineExtra.C01_env_last_value_wins`, reproved here — the environment READ AS A MAP: the value under a
+   normalised name `k` (`makeCgivar` = uppercase of the lossy decoding) is the value of the LAST transmitted
+   pair whose normalised name is `k`, `none` if there is none — an independent characterisation of the model's
+   fold `envExtend`
 
 **Modelling assumptions (obligations.json).**
 * lossy UTF-8 decoding is an executed external (theorems are parametric in it)
@@ -193,13 +217,106 @@ theorem C01Clause3_holds : C01Clause3 := by
 end Fcgi.C01
 end
 
+section
+namespace Fcgi.Headline
+open Fcgi Fcgi.Req Fcgi.Spec
+/-- the value stored under key `k` (keys are the normalised names) -/
+def envLookup (env : List (Bytes × Bytes)) (k : Bytes) : Option Bytes :=
+  (env.find? (fun e => e.1 == k)).map (·.2)
+
+theorem envLookup_insert (env : List (Bytes × Bytes)) (k' v k : Bytes) :
+    envLookup (envInsert env k' v) k = if k' = k then some v else envLookup env k := by
+  unfold envLookup envInsert
+  by_cases hany : env.any (fun e => e.1 == k') = true
+  · rw [if_pos hany, List.find?_map]
+    by_cases hk : k' = k
+    · subst hk
+      rw [if_pos rfl]
+      have hfun : ((fun e : Bytes × Bytes => e.1 == k') ∘ fun e => if (e.1 == k') = true then (k', v) else e) =
+          fun e => e.1 == k' := by
+        funext e
+        simp only [Function.comp]
+        split <;> simp_all
+      rw [hfun]
+      obtain ⟨e, he, hek⟩ := List.any_eq_true.1 hany
+      cases hf : env.find? (fun e => e.1 == k') with
+      | none => exact absurd hek (by simpa using List.find?_eq_none.1 hf e he)
+      | some x =>
+        have hx : x.1 = k' := by simpa using List.find?_some hf
+        simp [hx]
+    · rw [if_neg hk]
+      have hfun : ((fun e : Bytes × Bytes => e.1 == k) ∘ fun e => if (e.1 == k') = true then (k', v) else e) =
+          fun e => e.1 == k := by
+        funext e
+        simp only [Function.comp]
+        split
+        · rename_i h
+          have : e.1 = k' := by simpa using h
+          simp [this]
+        · rfl
+      rw [hfun]
+      cases hf : env.find? (fun e => e.1 == k) with
+      | none => rfl
+      | some x =>
+        have hx : x.1 = k := by simpa using List.find?_some hf
+        have : ¬ x.1 = k' := by rw [hx]; exact fun h => hk h.symm
+        simp [this]
+  · rw [if_neg hany, List.find?_append]
+    have hnone : ∀ e ∈ env, ¬ (e.1 == k') = true := by
+      intro e he h
+      exact hany (List.any_eq_true.2 ⟨e, he, h⟩)
+    by_cases hk : k' = k
+    · subst hk
+      rw [if_pos rfl]
+      have : env.find? (fun e => e.1 == k') = none := List.find?_eq_none.2 (by simpa using hnone)
+      simp [this]
+    · rw [if_neg hk]
+      have : ([(k', v)] : List (Bytes × Bytes)).find? (fun e => e.1 == k) = none := by
+        simp [hk]
+      rw [this, Option.or_none]
+
+/-- **Last value wins, per normalised name**: after `params.extend(pairs)` the value under key `k` is the
+value of the LAST transmitted pair whose normalised name (`makeCgivar` = uppercase of the lossy
+decoding) is `k`; keys that no pair has keep their old value. -/
+theorem envLookup_extend (ps : List (Bytes × Bytes)) : ∀ (env : List (Bytes × Bytes)) (k : Bytes),
+    envLookup (envExtend env ps) k =
+      match ps.reverse.find? (fun q => makeCgivar q.1 == k) with
+      | some q => some q.2
+      | none => envLookup env k := by
+  induction ps with
+  | nil => intro env k; rfl
+  | cons p ps ih =>
+    intro env k
+    rw [envExtend_cons, ih, List.reverse_cons, List.find?_append, envLookup_insert]
+    cases hf : ps.reverse.find? (fun q => makeCgivar q.1 == k) with
+    | some q => rfl
+    | none =>
+      by_cases hk : makeCgivar p.1 = k
+      · simp [hk]
+      · simp [hk]
+
+/-- the environment READ AS A MAP: the value under a normalised name `k` (`makeCgivar` = uppercase of the lossy decoding) is the value of the LAST transmitted pair whose normalised name is `k`, `none` if there is none — an independent characterisation of the model's fold `envExtend`  (`HeadlineExtra.C01_env_last_value_wins`, reproved here) -/
+def C01Clause4 : Prop :=
+  ∀ (p : Preamble) (k : Bytes),
+    envLookup p.request.env k = (p.pairs.reverse.find? (fun q => makeCgivar q.1 == k)).map (·.2)
+
+theorem C01Clause4_holds : C01Clause4 := by
+  unfold C01Clause4
+  intro p k
+  show envLookup (envExtend [] p.pairs) k = _
+  rw [envLookup_extend]
+  cases p.pairs.reverse.find? (fun q => makeCgivar q.1 == k) <;> rfl
+end Fcgi.Headline
+end
+
 namespace Fcgi.Headline
 /-- **C01** — see the section comment above for the clause-by-clause reading. -/
 theorem C01_headline :
     Fcgi.C01.C01Clause1 ∧
     Fcgi.C01.C01Clause2 ∧
-    Fcgi.C01.C01Clause3 :=
-  ⟨Fcgi.C01.C01Clause1_holds, Fcgi.C01.C01Clause2_holds, Fcgi.C01.C01Clause3_holds⟩
+    Fcgi.C01.C01Clause3 ∧
+    Fcgi.Headline.C01Clause4 :=
+  ⟨Fcgi.C01.C01Clause1_holds, Fcgi.C01.C01Clause2_holds, Fcgi.C01.C01Clause3_holds, Fcgi.Headline.C01Clause4_holds⟩
 end Fcgi.Headline
 
 
@@ -223,7 +340,10 @@ end Fcgi.Headline
   stream) is reached” — Clauses 3–5 (`end_reported`, `end_reported_dest`, `end_by_later_stream`); 'exactly'
   = `EveryParse (EndExact content)` inside Clause 1: no earlier parse reports the end.
 * “regardless of interleaved management, unknown-type or foreign-id records” — `StreamRecs` allows them;
-  Clause 6 (`stream_replies_exact`): they are answered exactly as owed.
+  Clause 6 (`stream_replies_exact`): at the moment the parser stands in front of the terminating record they
+  have been answered exactly as owed.
+* “… and of when the caller consumes or compacts, `set_stream`” — SCOPE: all six clauses are for histories
+  WITHOUT `set_stream` (`NoSet`); `set_stream` is C18 and `C03SS.*` / C05 Clause 6.
 
 **The conjuncts of `C02_headline`.**
 1. `C02.delivered_prefix` — after any legal operation history the bytes delivered so far are a prefix of the
@@ -233,8 +353,9 @@ end Fcgi.Headline
    with all content delivered
 4. `C02.end_reported_dest` — the same when data is delivered into caller buffers
 5. `C02.end_by_later_stream` — the first record of a later stream ends the current one
-6. `C02.stream_replies_exact` — the replies emitted over any legal history are exactly those owed for the
-   interleaved noise
+6. `C02.stream_replies_exact` — for histories that END with the parser standing in front of the stream's
+   terminating record: the replies emitted are exactly those owed for the interleaved noise, and everything was
+   delivered (the per-prefix ledger is `Str.ops_sim`, not a conjunct)
 
 **Modelling assumptions (obligations.json).**
 * semi-abstract buffer geometry: gap contents abstracted (copy_within ranges exercised by the correspondence
@@ -360,7 +481,7 @@ section
 namespace Fcgi.C02
 open Fcgi Fcgi.Str Fcgi.Spec
 open Fcgi.Req (Request PErr)
-/-- the replies emitted over any legal history are exactly those owed for the interleaved noise  (= `Fcgi.C02.stream_replies_exact`, `Props/C02.lean`) -/
+/-- for histories that END with the parser standing in front of the stream's terminating record: the replies emitted are exactly those owed for the interleaved noise, and everything was delivered (the per-prefix ledger is `Str.ops_sim`, not a conjunct)  (= `Fcgi.C02.stream_replies_exact`, `Props/C02.lean`) -/
 def C02Clause6 : Prop :=
   ∀ {id s mc : Nat} {content : Bytes} {recs : List Rec} {p0 : Parser}
     (h0 : Start p0 id s mc) (hrecs : StreamRecs id s content recs) (tail x : Bytes)
@@ -409,11 +530,12 @@ end Fcgi.Headline
   (`trace_total`, stream parser: `SInv` kept, `¬ PanicsAny`) for every legal history; termination is by
   construction (total functions; the progress guards are shown unreachable in C12 Clause 8).
 * “the final outcome is determined by the byte sequence and the configuration alone, never by the chunking”
-  — Clause 3 (`chunk_invariance`, request parser: `settled` = state, output, leftover, incl. StuckOnInput)
-  and Clause 4 (`str_chunk_invariance`, stream parser: same outcome for two drained histories over the same
-  bytes; `set_stream` is lifted by `C03SS.early_switch_invariance`).  Equal reported stream bytes EVEN when
-  a call fails is false (`str_chunk_invariance_full_false`, replayed on the crate) — the property only asks
-  for:
+  — Clause 3 (`chunk_invariance`, request parser: `settled` = state, output, leftover, incl. StuckOnInput;
+  chunks NON-EMPTY — an extra `parse([])` can move a resting intermediate state, `run_split_full_false`) and
+  Clause 4 (`str_chunk_invariance`, stream parser: two drained histories without `set_stream` over the same
+  bytes; one switch: `C03SS.early_switch_invariance`; `set_stream(None)` histories: C05Chain2).  Equal
+  reported stream bytes EVEN when a call fails is false (`str_chunk_invariance_full_false`, replayed on the
+  crate) — the property only asks for:
 * “when a call fails, the stream bytes reported before it are a prefix of the stream's true content” —
   Clause 5 (`prefix_on_error`).
 * “a fatal error, once reported, is reported again by every later call and no further output is produced” —
@@ -425,9 +547,10 @@ end Fcgi.Headline
 2. `C03S.trace_total` — stream parser: every legal operation history runs without panic and keeps the buffer
    invariant
 3. `C03.chunk_invariance` — request parser: the outcome (request or fatal error, output, leftover) is
-   independent of the chunking
-4. `C03SI.str_chunk_invariance` — stream parser: two legal drained histories over the same bytes have the
-   same outcome
+   independent of the chunking — for feeds of NON-EMPTY chunks (`LegalFeed`; an extra `parse([])` can move a
+   resting intermediate state, `run_split_full_false`)
+4. `C03SI.str_chunk_invariance` — stream parser: two legal drained histories WITHOUT `set_stream` over the
+   same bytes have the same outcome (one switch: `C03SS.early_switch_invariance`)
 5. `C03SI.prefix_on_error` — when a call fails, the stream bytes reported before are a prefix of the true
    content
 6. `C03.fatal_sticky` — request parser: a fatal error is reported again by every later call, no further
@@ -444,6 +567,7 @@ end Fcgi.Headline
 * 'any byte sequence' for the stream parser is relative to the byte-level reference `refWire` (unique
   decomposition of ANY byte string, `C03SI.decomposition_unique`)
 * usize = 64 bit
+* conversions attempted at non-final states: `C03.interrupted` (registered, not a conjunct)
 
 -/
 
@@ -482,7 +606,7 @@ end
 section
 namespace Fcgi.C03
 open Fcgi Fcgi.Req
-/-- request parser: the outcome (request or fatal error, output, leftover) is independent of the chunking  (= `Fcgi.C03.chunk_invariance`, `Props/C03Chunk.lean`) -/
+/-- request parser: the outcome (request or fatal error, output, leftover) is independent of the chunking — for feeds of NON-EMPTY chunks (`LegalFeed`; an extra `parse([])` can move a resting intermediate state, `run_split_full_false`)  (= `Fcgi.C03.chunk_invariance`, `Props/C03Chunk.lean`) -/
 def C03Clause3 : Prop :=
   ∀ {p : Parser} {cs cs' : List Bytes} (hp : PInv p) (hl : LegalFeed p cs)
     (hl' : LegalFeed p cs') (hw : cs.flatten = cs'.flatten),
@@ -499,7 +623,7 @@ section
 namespace Fcgi.C03SI
 open Fcgi Fcgi.Str Fcgi.Spec
 open Fcgi.Req (Request PErr)
-/-- stream parser: two legal drained histories over the same bytes have the same outcome  (= `Fcgi.C03SI.str_chunk_invariance`, `Props/C03StrInv.lean`) -/
+/-- stream parser: two legal drained histories WITHOUT `set_stream` over the same bytes have the same outcome (one switch: `C03SS.early_switch_invariance`)  (= `Fcgi.C03SI.str_chunk_invariance`, `Props/C03StrInv.lean`) -/
 def C03Clause4 : Prop :=
   ∀ {E : Cfg} {p0 : Parser} (h0 : Start E p0) {ops₁ ops₂ : List Op}
     (hl₁ : LegalAll p0 ops₁) (hl₂ : LegalAll p0 ops₂) (hns₁ : NoSet ops₁) (hns₂ : NoSet ops₂)
@@ -624,25 +748,31 @@ end Fcgi.Headline
 **Clause by clause.**
 * “each GetValues query with a non-empty body, each record of unknown type, each BeginRequest for a second
   id, each BeginRequest with an unknown role and each AbortRequest during Params elicits exactly one reply
-  with the prescribed type, id, status and body; in arrival order; no other bytes” — Clauses 1–3: for ANY
-  byte string the request parser's output equals the reference automaton's (`req_replies_hostile`, any
-  chunking: `req_replies_chunked`) and the stream parser's output equals `streamReplies`
-  (`stream_replies_hostile`), both defined record by record over the unique decomposition; the per-record
-  tables are `C04.owed_*`.  Clause 4 (`replies_exact_oneshot`) is the well-formed case, Clause 5 the
-  AbortRequest-in-Params case.
+  with the prescribed type, id, status and body; in arrival order; no other bytes” — Request parser, ANY
+  byte string: Clause 1 (`req_replies_hostile`: output = the reference automaton's), any chunking of non-
+  empty chunks: Clause 2.  Stream PARSER, any bytes: Clause 3 (parser output over a legal,
+  `set_stream`-free, drained history = `streamReplies`), built on the reference-level Clause 7.  Both
+  references are defined record by record over the unique decomposition; the per-record tables are
+  `C04.owed_*`.  Clause 4 (`replies_exact_oneshot`): the well-formed case; Clause 5: AbortRequest in Params.
 * “the output byte counts the parsers report equal the bytes they actually appended” — Clause 6
-  (`C03S.counts_exact`).
+  (`C03S.counts_exact`, stream parser; the request parser's `Yield.output` IS the byte list, by construction
+  of the model).
 
 **The conjuncts of `C04_headline`.**
 1. `C04H.req_replies_hostile` — request parser, ANY byte string: the output is exactly what the reference
    automaton prescribes over the unique record decomposition
-2. `C04H.req_replies_chunked` — … under any legal chunking
-3. `C04H.stream_replies_hostile` — stream parser, ANY byte string and legal history: the output is exactly
-   the replies owed record by record
+2. `C04H.req_replies_chunked` — … under any legal chunking of NON-EMPTY chunks into a fresh parser that does
+   not get stuck
+3. `HeadlineExtra.C04_stream_replies_parser` = `C03SI.drained_outcome` ∘ `C04H.stream_replies_hostile`,
+   reproved here — stream PARSER, any bytes: for every legal history without `set_stream` that has processed
+   what it was fed, the reply bytes the parser generated are exactly `streamReplies` of the bytes it holds and
+   was fed — one `Spec.owed` per record, in order, nothing else
 4. `C04.replies_exact_oneshot` — well-formed preamble: replies = `owedPreamble`, in arrival order, nothing
    else
 5. `C04.abort_during_params` — AbortRequest during Params: exactly one EndRequest(RequestComplete)
 6. `C03S.counts_exact` — the reported output counts equal the bytes appended
+7. `C04H.stream_replies_hostile` — reference level only (no parser, no history in this statement): the byte-
+   level reference `refWire` emits exactly `streamReplies`; used by the clause above
 
 **Modelling assumptions (obligations.json).**
 * id echoed for unknown types with a non-zero id is the repo's own pinned behaviour (specification silent)
@@ -687,7 +817,7 @@ open Fcgi Fcgi.Str Fcgi.Spec Fcgi.C03SI
 open Fcgi.Req (Request PErr)
 section Request
 open Fcgi.Req
-/-- … under any legal chunking  (= `Fcgi.C04H.req_replies_chunked`, `Props/C04Hostile.lean`) -/
+/-- … under any legal chunking of NON-EMPTY chunks into a fresh parser that does not get stuck  (= `Fcgi.C04H.req_replies_chunked`, `Props/C04Hostile.lean`) -/
 def C04Clause2 : Prop :=
   ∀ (b mc : Nat) {cs : List Bytes} (hl : C03.LegalFeed (Parser.new b mc) cs)
     (hne : cs ≠ []) (hns : C06.NoStuck (Parser.new b mc) cs.flatten),
@@ -705,19 +835,22 @@ end Fcgi.C04H
 end
 
 section
-namespace Fcgi.C04H
+namespace Fcgi.Headline
 open Fcgi Fcgi.Str Fcgi.Spec Fcgi.C03SI
-open Fcgi.Req (Request PErr)
-/-- stream parser, ANY byte string and legal history: the output is exactly the replies owed record by record  (= `Fcgi.C04H.stream_replies_hostile`, `Props/C04Hostile.lean`) -/
+
+/-- stream PARSER, any bytes: for every legal history without `set_stream` that has processed what it was fed, the reply bytes the parser generated are exactly `streamReplies` of the bytes it holds and was fed — one `Spec.owed` per record, in order, nothing else  (`HeadlineExtra.C04_stream_replies_parser` = `C03SI.drained_outcome` ∘ `C04H.stream_replies_hostile`, reproved here) -/
 def C04Clause3 : Prop :=
-  ∀ (E : Cfg) (w : Bytes),
-    (refWire E w).out = streamReplies E w
+  ∀ {E : Cfg} {p0 : Str.Parser} (h0 : Start E p0) (ops : List Op)
+    (hl : LegalAll p0 ops) (hns : NoSet ops) (hdr : Drained (applyOps p0 ops)),
+    C03S.grownAll p0 ops = C04H.streamReplies E (p0.raw ++ fedBytes ops)
 
 theorem C04Clause3_holds : C04Clause3 := by
   unfold C04Clause3
-  exact @stream_replies_hostile
-
-end Fcgi.C04H
+  intro E p0 h0 ops hl hns hdr
+  have h := congrArg Outcome.out (drained_outcome h0 ops hl hns hdr).1
+  simp only [outcome, refOutcome] at h
+  rw [h, C04H.stream_replies_hostile]
+end Fcgi.Headline
 end
 
 section
@@ -778,16 +911,33 @@ theorem C04Clause6_holds : C04Clause6 := by
 end Fcgi.C03S
 end
 
+section
+namespace Fcgi.C04H
+open Fcgi Fcgi.Str Fcgi.Spec Fcgi.C03SI
+open Fcgi.Req (Request PErr)
+/-- reference level only (no parser, no history in this statement): the byte-level reference `refWire` emits exactly `streamReplies`; used by the clause above  (= `Fcgi.C04H.stream_replies_hostile`, `Props/C04Hostile.lean`) -/
+def C04Clause7 : Prop :=
+  ∀ (E : Cfg) (w : Bytes),
+    (refWire E w).out = streamReplies E w
+
+theorem C04Clause7_holds : C04Clause7 := by
+  unfold C04Clause7
+  exact @stream_replies_hostile
+
+end Fcgi.C04H
+end
+
 namespace Fcgi.Headline
 /-- **C04** — see the section comment above for the clause-by-clause reading. -/
 theorem C04_headline :
     Fcgi.C04H.C04Clause1 ∧
     Fcgi.C04H.C04Clause2 ∧
-    Fcgi.C04H.C04Clause3 ∧
+    Fcgi.Headline.C04Clause3 ∧
     Fcgi.C04.C04Clause4 ∧
     Fcgi.C04.C04Clause5 ∧
-    Fcgi.C03S.C04Clause6 :=
-  ⟨Fcgi.C04H.C04Clause1_holds, Fcgi.C04H.C04Clause2_holds, Fcgi.C04H.C04Clause3_holds, Fcgi.C04.C04Clause4_holds, Fcgi.C04.C04Clause5_holds, Fcgi.C03S.C04Clause6_holds⟩
+    Fcgi.C03S.C04Clause6 ∧
+    Fcgi.C04H.C04Clause7 :=
+  ⟨Fcgi.C04H.C04Clause1_holds, Fcgi.C04H.C04Clause2_holds, Fcgi.Headline.C04Clause3_holds, Fcgi.C04.C04Clause4_holds, Fcgi.C04.C04Clause5_holds, Fcgi.C03S.C04Clause6_holds, Fcgi.C04H.C04Clause7_holds⟩
 end Fcgi.Headline
 
 
@@ -803,25 +953,35 @@ end Fcgi.Headline
 
 **Clause by clause.**
 * “whenever a parser finishes or is converted … the bytes not yet interpreted are exactly the unread suffix
-  of what was fed, in order” — Clauses 1–4: the four conversions (`into_stream_parser`,
-  `into_request_parser`, `into_input`, `into_request`); Clause 5 (`chain_suffix`) composes them: fed =
-  consumed₁ ++ consumed₂ ++ what the next request parser holds.
+  of what was fed, in order” — Clauses 1–4: the four conversions (each: if the conversion succeeds the
+  result holds `p.input` / `p.raw`); Clause 5 (`chain_suffix`): a suffix (existential); exactly WHICH:
+  Clause 6 and `C03.leftover_is_unread_suffix`.
 * “a connection carrying k sequential requests through the chain with one shared buffer yields the same k
   environments and stream contents as k separate connections, even when input streams are left partly or
-  wholly unread” — Clause 6 (`k_requests_any_reads`): any amount read per stream, any look-ahead; hypothesis
-  `NoOverruns` (a hand-over in the middle of a record must not swallow a pipelined next request — refuted
-  without it: `k_requests_any_reads_full_false`; implied for the property's one-request-at-a-time client).
-  The async-level version is C07 (`k_requests_e2e`, `k_requests_unread_e2e_partial`, `unread_*_chain_e2e`).
+  wholly unread” — Environments, replies, hand-offs: Clause 6 (`k_requests_any_reads`; hypothesis
+  `NoOverruns` — refuted without it — and `Spec1.OK`; conditional on `chain … = some`).  Stream CONTENTS:
+  Clauses 7–8 (delivered bytes are a prefix of the contents, whatever the caller does) and Clause 9
+  (`active_reads_facts`: equal to the contents when every read is made with the stream active).  Open
+  (obligations.json): Filter turns with a mid-record drop.  The async-level version is C07
+  (`k_requests_e2e`, `unread_*_chain_e2e`).
 
 **The conjuncts of `C05_headline`.**
 1. `C05.into_stream_parser` — request parser → stream parser: the unread suffix is handed over
 2. `C05.into_request_parser` — stream parser → request parser: what is buffered is the unread suffix
 3. `C05.into_input` — stream parser → leftover input
 4. `C05.into_request` — request parser → request plus leftover
-5. `C05.chain_suffix` — along the whole conversion chain the bytes not yet interpreted are the unread suffix
-   of what was fed
+5. `C05.chain_suffix` — along the conversion chain what the next request parser holds is A suffix of what
+   was fed (`consumed₁`, `consumed₂` existential; WHICH suffix: Clause 6 and `C03.leftover_is_unread_suffix`)
 6. `C05C.k_requests_any_reads` — k sequential requests through the chain with one shared buffer, ANY amount
-   read of each stream: same environments and stream contents as k separate connections
+   read of each stream: the k requests (environments) are those of the preambles, every hand-off is the unread
+   suffix at a record boundary, unread records are answered by the next request parser (stream CONTENTS: the
+   next three clauses)
+7. `C05C.responder_delivered_any` — stream contents, Responder turn: whatever the caller does on the stream
+   parser, the bytes delivered are a prefix of the Stdin content
+8. `C05C.filter_delivered_any` — stream contents, Filter turn: delivered bytes are a prefix of the Stdin
+   content followed by a prefix of the Data content
+9. `C05C.active_reads_facts` — … and with every read made while the stream is active and the hand-over at a
+   record boundary, the delivered bytes ARE the contents (under `ActiveReads`)
 
 **Modelling assumptions (obligations.json).**
 * one-request-at-a-time client: look-ahead at the stream->request hand-off only contains unread records of
@@ -915,7 +1075,7 @@ section
 namespace Fcgi.C05
 open Fcgi Fcgi.Req Fcgi.Spec
 open Fcgi.Str (SInv Op applyOp applyOps Legal LegalAll)
-/-- along the whole conversion chain the bytes not yet interpreted are the unread suffix of what was fed  (= `Fcgi.C05.chain_suffix`, `Props/C05.lean`) -/
+/-- along the conversion chain what the next request parser holds is A suffix of what was fed (`consumed₁`, `consumed₂` existential; WHICH suffix: Clause 6 and `C03.leftover_is_unread_suffix`)  (= `Fcgi.C05.chain_suffix`, `Props/C05.lean`) -/
 def C05Clause5 : Prop :=
   ∀ {p0 : Req.Parser} {cs : List Bytes} {r : Request} {sp : Str.Parser}
     {ops : List Op} {rp : Req.Parser} (hp : PInv p0) (hst : StId p0.state)
@@ -940,7 +1100,7 @@ section
 namespace Fcgi.C05C
 open Fcgi Fcgi.Req Fcgi.Str Fcgi.Spec
 open Fcgi.E2E (idleOwed serAll_app)
-/-- k sequential requests through the chain with one shared buffer, ANY amount read of each stream: same environments and stream contents as k separate connections  (= `Fcgi.C05C.k_requests_any_reads`, `Props/C05Chain.lean`) -/
+/-- k sequential requests through the chain with one shared buffer, ANY amount read of each stream: the k requests (environments) are those of the preambles, every hand-off is the unread suffix at a record boundary, unread records are answered by the next request parser (stream CONTENTS: the next three clauses)  (= `Fcgi.C05C.k_requests_any_reads`, `Props/C05Chain.lean`) -/
 def C05Clause6 : Prop :=
   ∀ {cap mc : Nat} {ts : List Turn} {qs : List Spec1} {os : List Obs}
     {rp rpK : Req.Parser} {u : List Rec} {fut : Bytes}
@@ -963,6 +1123,67 @@ theorem C05Clause6_holds : C05Clause6 := by
 end Fcgi.C05C
 end
 
+section
+namespace Fcgi.C05C
+open Fcgi Fcgi.Req Fcgi.Str Fcgi.Spec Fcgi.C03SI
+open Fcgi.E2E (serAll_app body_wf)
+/-- stream contents, Responder turn: whatever the caller does on the stream parser, the bytes delivered are a prefix of the Stdin content  (= `Fcgi.C05C.responder_delivered_any`, `Props/C05Chain2.lean`) -/
+def C05Clause7 : Prop :=
+  ∀ {cap mc : Nat} {q : Spec1} {later : List Rec} {t : Turn} {o : Obs} (hq : q.OK)
+    (hlater : ∀ r ∈ later, r.WF) (hrole : q.p.role = 1) (hf : Front cap mc q later t o)
+    {content : Bytes} {body : List Rec} {term : Rec} {more : List Rec} (hsh : StdinShape q content body term more),
+    deliveredOps o.sp t.ops <+: content
+
+theorem C05Clause7_holds : C05Clause7 := by
+  unfold C05Clause7
+  exact @responder_delivered_any
+
+end Fcgi.C05C
+end
+
+section
+namespace Fcgi.C05C
+open Fcgi Fcgi.Req Fcgi.Str Fcgi.Spec Fcgi.C03SI
+open Fcgi.E2E (serAll_app body_wf)
+/-- stream contents, Filter turn: delivered bytes are a prefix of the Stdin content followed by a prefix of the Data content  (= `Fcgi.C05C.filter_delivered_any`, `Props/C05Chain2.lean`) -/
+def C05Clause8 : Prop :=
+  ∀ {cap mc : Nat} {q : Spec1} {later : List Rec} {t : Turn} {o : Obs} (hq : q.OK)
+    (hlater : ∀ r ∈ later, r.WF) (hrole : q.p.role = 3) (hf : Front cap mc q later t o)
+    {c5 c8 : Bytes} {b5 b8 : List Rec} {t5 t8 : Rec} {more : List Rec}
+    (hsh : FilterShape q c5 b5 t5 c8 b8 t8 more),
+    ∃ dA dB, deliveredOps o.sp t.ops = dA ++ dB ∧ dA <+: c5 ∧ dB <+: c8
+
+theorem C05Clause8_holds : C05Clause8 := by
+  unfold C05Clause8
+  exact @filter_delivered_any
+
+end Fcgi.C05C
+end
+
+section
+namespace Fcgi.C05C
+open Fcgi Fcgi.Req Fcgi.Str Fcgi.Spec
+open Fcgi.E2E (idleOwed serAll_app)
+/-- … and with every read made while the stream is active and the hand-over at a record boundary, the delivered bytes ARE the contents (under `ActiveReads`)  (= `Fcgi.C05C.active_reads_facts`, `Props/C05Chain.lean`) -/
+def C05Clause9 : Prop :=
+  ∀ {cap mc : Nat} {q : Spec1} {later : List Rec} {t : Turn} {o : Obs} (hq : q.OK)
+    (hlater : ∀ r ∈ later, r.WF) (hf : Front cap mc q later t o)
+    {s : Nat} {content : Bytes} {body : List Rec} {term : Rec} {more : List Rec} {A Bq : List Op}
+    (ha : ActiveReads q t s content body term more A Bq),
+    (deliveredOps o.sp t.ops <+: content ∧ EveryParse (EndExact content) [] o.sp A) ∧
+    C03S.grownAll o.sp t.ops <+: owedStream q.p.id s mc body ∧
+    (o.spEnd.isRecordBoundary = true → ∃ d rs cr, body = d ++ rs ∧ Body q.p.id s cr rs ∧
+      deliveredOps o.sp t.ops ++ cr = content ∧
+      C03S.grownAll o.sp t.ops = owedStream q.p.id s mc d ∧
+      o.sp.raw ++ C05.fedBytes t.ops = serAll d ++ o.spEnd.raw)
+
+theorem C05Clause9_holds : C05Clause9 := by
+  unfold C05Clause9
+  exact @active_reads_facts
+
+end Fcgi.C05C
+end
+
 namespace Fcgi.Headline
 /-- **C05** — see the section comment above for the clause-by-clause reading. -/
 theorem C05_headline :
@@ -971,8 +1192,11 @@ theorem C05_headline :
     Fcgi.C05.C05Clause3 ∧
     Fcgi.C05.C05Clause4 ∧
     Fcgi.C05.C05Clause5 ∧
-    Fcgi.C05C.C05Clause6 :=
-  ⟨Fcgi.C05.C05Clause1_holds, Fcgi.C05.C05Clause2_holds, Fcgi.C05.C05Clause3_holds, Fcgi.C05.C05Clause4_holds, Fcgi.C05.C05Clause5_holds, Fcgi.C05C.C05Clause6_holds⟩
+    Fcgi.C05C.C05Clause6 ∧
+    Fcgi.C05C.C05Clause7 ∧
+    Fcgi.C05C.C05Clause8 ∧
+    Fcgi.C05C.C05Clause9 :=
+  ⟨Fcgi.C05.C05Clause1_holds, Fcgi.C05.C05Clause2_holds, Fcgi.C05.C05Clause3_holds, Fcgi.C05.C05Clause4_holds, Fcgi.C05.C05Clause5_holds, Fcgi.C05C.C05Clause6_holds, Fcgi.C05C.C05Clause7_holds, Fcgi.C05C.C05Clause8_holds, Fcgi.C05C.C05Clause9_holds⟩
 end Fcgi.Headline
 
 
@@ -987,22 +1211,32 @@ end Fcgi.Headline
 
 **Clause by clause.**
 * “a well-formed preamble in which each pair's name and value together occupy at most B − 13 bytes is parsed
-  without StuckOnInput, for every segmentation and chunking” — Clause 1 (`sufficiency`); Clause 2
-  (`doc_bound_tight`) turns the documented bound into the technical fit hypotheses used elsewhere (C01, C07,
-  C12); tightness/necessity: `sufficiency_tight`, `stuck_witness`.
+  without StuckOnInput, for every segmentation and chunking” — Clause 1 (`sufficiency`: conclusion '≠
+  StuckOnInput'; 'parsed to completion' is C01 Clause 1; `NoiseSmall`, non-empty chunks); Clause 2 turns the
+  documented bound into the fit hypotheses; tightness: Clause 6; end to end: Clauses 7–8.
 * “a request parser that has not finished always offers a non-empty input buffer: if it cannot, it reports
-  StuckOnInput from that very call” — Clauses 3–4 (`not_done_has_space`, `stuck_reported_at_once`).
+  StuckOnInput from that very call” — Clause 3 (`not_done_has_space`), Clause 4 (`done` ∧
+  `Fatal(StuckOnInput)` ∧ `into_request = Err(StuckOnInput)`), Clause 9 (`read_has_space`: the connection
+  task never offers the transport an empty buffer).
 * “the effective buffer is never smaller than the configured size nor than 24, and is a multiple of 8” —
   Clause 5 (`aligned_spec`, for b + 7 < 2^64; the overflow case is `aligned_overflow`).
 
 **The conjuncts of `C06_headline`.**
 1. `C06.sufficiency` — pairs within B − 13: the preamble is parsed to completion without StuckOnInput, any
    segmentation and chunking
-2. `C06.doc_bound_tight` — the bound is tight
+2. `C06.doc_bound_tight` — the documented bound `name + value + 13 ≤ B` implies the technical fit hypotheses
+   used by C01/C07/C12 (nothing about tightness; tightness is Clause 7)
 3. `C06.not_done_has_space` — an unfinished request parser that did not report StuckOnInput offers a non-
    empty buffer
-4. `C06.stuck_reported_at_once` — if it cannot, StuckOnInput is reported from that very call
+4. `HeadlineExtra.C06_no_space_reports_stuck` = `C06.stuck_reported_at_once` + `C06.stuck_state` — if it
+   cannot offer space, that very call returns `done` AND leaves `Fatal(StuckOnInput)`, which `into_request`
+   returns
 5. `C06.aligned_spec` — the effective buffer: ≥ configured, ≥ 24, multiple of 8
+6. `C06.sufficiency_tight` — tightness: the fit condition is also necessary
+7. `C06E.stuck_preamble_e2e` — end to end: a unit that does not fit — the task returns, no handler, the
+   replies owed so far
+8. `C06E.fatal_preamble_e2e` — end to end: a fatal preamble — RET, no handler, exactly the reference output
+9. `C06E.read_has_space` — `parse_request` never offers the transport an empty buffer
 
 **Modelling assumptions (obligations.json).**
 * usize is 64 bit
@@ -1010,6 +1244,10 @@ end Fcgi.Headline
   shorter than the buffer (NoiseFits) — implied by NoiseSmall: the body is a sequence of pairs each within
   the bound (any total length, also far longer than the buffer: complete pairs are released as parsed) or is
   at most L+8 by…
+* Props/C06E2E (Proofs/E2EFatal, E2EStuck, E2EStuckPair): the property at the ASYNC level —
+  `stuck_preamble_e2e` / `stuck_pair_e2e`: a preamble with a pair that does not fit the effective buffer,
+  any record segmentation, any benign transport: runTask ends RET/finished, NO handler start, scripts
+  untouched, log = the replies prod…
 
 **Not proved as theorems — carried by the differential run + oracle, or trusted.**
 * management GetValues bodies must fit (`NoiseSmall`); a hostile oversized pair is C03's StuckOnInput
@@ -1038,7 +1276,7 @@ end
 section
 namespace Fcgi.C06
 open Fcgi Fcgi.Req Fcgi.Spec Fcgi.C03 Fcgi.VarInt
-/-- the bound is tight  (= `Fcgi.C06.doc_bound_tight`, `Props/C06Suff.lean`) -/
+/-- the documented bound `name + value + 13 ≤ B` implies the technical fit hypotheses used by C01/C07/C12 (nothing about tightness; tightness is Clause 7)  (= `Fcgi.C06.doc_bound_tight`, `Props/C06Suff.lean`) -/
 def C06Clause2 : Prop :=
   ∀ {p : Preamble} {recs : List Rec} (h : WellFormedPreamble p recs) (b : Nat)
     (hpairs : ∀ q ∈ p.pairs, q.1.length + q.2.length + 13 ≤ b)
@@ -1069,19 +1307,21 @@ end Fcgi.C06
 end
 
 section
-namespace Fcgi.C06
+namespace Fcgi.Headline
 open Fcgi Fcgi.Req
-/-- if it cannot, StuckOnInput is reported from that very call  (= `Fcgi.C06.stuck_reported_at_once`, `Props/C06.lean`) -/
+
+/-- if it cannot offer space, that very call returns `done` AND leaves `Fatal(StuckOnInput)`, which `into_request` returns  (`HeadlineExtra.C06_no_space_reports_stuck` = `C06.stuck_reported_at_once` + `C06.stuck_state`) -/
 def C06Clause4 : Prop :=
-  ∀ {p p' : Parser} {new : Bytes} {y : Yield} (hp : PInv p)
-    (hn : new.length ≤ p.free) (h : p.parse new = (p', some y)) (hfree : p'.free = 0),
-    y.done = true
+  ∀ {p p' : Req.Parser} {new : Bytes} {y : Yield} (hp : PInv p)
+    (hn : new.length ≤ p.free) (h : p.parse new = (p', some y)) (hfree : p'.free = 0)
+    (hnf : (run p.state (p.input ++ new) p.maxConns).st.isFinal = false),
+    y.done = true ∧ p'.state = .fatal .stuckOnInput ∧ p'.intoRequest = .error .stuckOnInput
 
 theorem C06Clause4_holds : C06Clause4 := by
   unfold C06Clause4
-  exact @stuck_reported_at_once
-
-end Fcgi.C06
+  intro p p' new y hp hn h hfree hnf
+  exact ⟨C06.stuck_reported_at_once hp hn h hfree, C06.stuck_state hp hn h hfree hnf⟩
+end Fcgi.Headline
 end
 
 section
@@ -1100,15 +1340,95 @@ theorem C06Clause5_holds : C06Clause5 := by
 end Fcgi.C06
 end
 
+section
+namespace Fcgi.C06
+open Fcgi Fcgi.Req Fcgi.Spec Fcgi.C03 Fcgi.VarInt
+/-- tightness: the fit condition is also necessary  (= `Fcgi.C06.sufficiency_tight`, `Props/C06Suff.lean`) -/
+def C06Clause6 : Prop :=
+  ∀ {p : Preamble} {recs : List Rec} (h : WellFormedPreamble p recs)
+    (extra : Bytes) (b mc : Nat)
+    (hpairs : ∀ q ∈ p.pairs, (NV.enc q).length ≤ alignedBufsize b)
+    (hnoise : NoiseFits (alignedBufsize b) recs) {cs : List Bytes}
+    (hl : LegalFeed (Parser.new b mc) cs) (hW : cs.flatten <+: serAll recs ++ extra),
+    (feedAll (Parser.new b mc) cs).1.state ≠ .fatal .stuckOnInput
+
+theorem C06Clause6_holds : C06Clause6 := by
+  unfold C06Clause6
+  exact @sufficiency_tight
+
+end Fcgi.C06
+end
+
+section
+namespace Fcgi.C06E
+open Fcgi Fcgi.Req Fcgi.Str Fcgi.Async Fcgi.Run Fcgi.Spec Fcgi.E2E Fcgi.C07E Fcgi.C06 Fcgi.VarInt
+/-- end to end: a unit that does not fit — the task returns, no handler, the replies owed so far  (= `Fcgi.C06E.stuck_preamble_e2e`, `Props/C06E2E.lean`) -/
+def C06Clause7 : Prop :=
+  ∀ {Wk W O : Bytes} (b mc : Nat) (scripts : List (List HOp × Bool)) (t : Transport)
+    (fuel : Nat) (K : SCtx (alignedBufsize b) mc Wk W O)
+    (hin : t.input = W) (hb : Ben t)
+    (hfuel : t.rd.length + t.wr.length + 1 ≤ fuel) (hlen : 2 * t.input.length + 6 ≤ 100000),
+    ∃ c', runTask fuel (connS b mc t scripts) 0 none = (c', "RET") ∧ c'.phase = .finished ∧
+      hsCount c'.env.tr.events = hsCount t.events ∧ c'.scripts = scripts ∧
+      c'.env.tr.wlog = t.wlog ++ O
+
+theorem C06Clause7_holds : C06Clause7 := by
+  unfold C06Clause7
+  exact @stuck_preamble_e2e
+
+end Fcgi.C06E
+end
+
+section
+namespace Fcgi.C06E
+open Fcgi Fcgi.Req Fcgi.Str Fcgi.Async Fcgi.Run Fcgi.Spec Fcgi.E2E Fcgi.C07E Fcgi.C06 Fcgi.VarInt
+/-- end to end: a fatal preamble — RET, no handler, exactly the reference output  (= `Fcgi.C06E.fatal_preamble_e2e`, `Props/C06E2E.lean`) -/
+def C06Clause8 : Prop :=
+  ∀ {Wf Z : Bytes} {e : PErr} (b mc : Nat) (scripts : List (List HOp × Bool))
+    (t : Transport) (fuel : Nat)
+    (hfat : (run .header Wf mc).st = .fatal e) (hsmall : Wf.length < alignedBufsize b)
+    (hin : t.input = Wf ++ Z) (hb : Ben t)
+    (hfuel : t.rd.length + t.wr.length + 1 ≤ fuel) (hlen : 2 * t.input.length + 5 ≤ 100000),
+    ∃ c', runTask fuel (connS b mc t scripts) 0 none = (c', "RET") ∧ c'.phase = .finished ∧
+      hsCount c'.env.tr.events = hsCount t.events ∧ c'.scripts = scripts ∧
+      c'.env.tr.wlog = t.wlog ++ (run .header Wf mc).out ∧
+      (run .header Wf mc).out = (C04H.reqRef mc Wf).out
+
+theorem C06Clause8_holds : C06Clause8 := by
+  unfold C06Clause8
+  exact @fatal_preamble_e2e
+
+end Fcgi.C06E
+end
+
+section
+namespace Fcgi.C06E
+open Fcgi Fcgi.Req Fcgi.Str Fcgi.Async Fcgi.Run Fcgi.Spec Fcgi.E2E Fcgi.C07E Fcgi.C06 Fcgi.VarInt
+/-- `parse_request` never offers the transport an empty buffer  (= `Fcgi.C06E.read_has_space`, `Props/C06E2E.lean`) -/
+def C06Clause9 : Prop :=
+  ∀ {c : Conn} {rp : Req.Parser} (h : RGood c) (hp : c.phase = .parseReq rp .reading),
+    0 < rp.free
+
+theorem C06Clause9_holds : C06Clause9 := by
+  unfold C06Clause9
+  exact @read_has_space
+
+end Fcgi.C06E
+end
+
 namespace Fcgi.Headline
 /-- **C06** — see the section comment above for the clause-by-clause reading. -/
 theorem C06_headline :
     Fcgi.C06.C06Clause1 ∧
     Fcgi.C06.C06Clause2 ∧
     Fcgi.C06.C06Clause3 ∧
-    Fcgi.C06.C06Clause4 ∧
-    Fcgi.C06.C06Clause5 :=
-  ⟨Fcgi.C06.C06Clause1_holds, Fcgi.C06.C06Clause2_holds, Fcgi.C06.C06Clause3_holds, Fcgi.C06.C06Clause4_holds, Fcgi.C06.C06Clause5_holds⟩
+    Fcgi.Headline.C06Clause4 ∧
+    Fcgi.C06.C06Clause5 ∧
+    Fcgi.C06.C06Clause6 ∧
+    Fcgi.C06E.C06Clause7 ∧
+    Fcgi.C06E.C06Clause8 ∧
+    Fcgi.C06E.C06Clause9 :=
+  ⟨Fcgi.C06.C06Clause1_holds, Fcgi.C06.C06Clause2_holds, Fcgi.C06.C06Clause3_holds, Fcgi.Headline.C06Clause4_holds, Fcgi.C06.C06Clause5_holds, Fcgi.C06.C06Clause6_holds, Fcgi.C06E.C06Clause7_holds, Fcgi.C06E.C06Clause8_holds, Fcgi.C06E.C06Clause9_holds⟩
 end Fcgi.Headline
 
 
@@ -1134,9 +1454,16 @@ end Fcgi.Headline
   `log` field of the same theorems: `owedPreamble ++ O₁ ++ Stdout records ++ O₂ ++ [Stdout∅, Stderr∅,
   EndRequest(id, st)]`.
 * “the connection then serves the next request iff the request set the keep-connection flag and no I/O error
-  occurred, even when the handler left input unread” — Clause 5 (`reuse_iff`) at the step level; Clause 4
-  (`k_requests_e2e`) for k mixed requests; unread input: Clauses 6–7 (`unread_request_e2e`,
-  `unread_prefix_e2e_full_holds`; Filters: `unread_filter_e2e`), Clause 8 (`authorizer_tail_e2e`).
+  occurred, even when the handler left input unread” — 'only if': Clause 5 (step level: going on from
+  `close` ⇒ KEEP_CONN ∧ no writer alive ∧ output ++ epilogue fully written); both directions at run level:
+  the `final` fields of Clauses 1–4 (`k_requests_e2e`: k mixed requests); the error half is C12.  Unread
+  input: Clauses 6–9 (`unread_request_e2e`, `unread_prefix_e2e_full_holds`, `authorizer_tail_e2e`,
+  `unread_filter_e2e`; hypothesis `hnb`: no BeginRequest among the unread records — forced).
+* “for every way the transport splits or delays reads and writes; handler families” — every e2e clause: `Ben
+  t` (arbitrary splitting, transient Pendings, no faults) and the canonical handler family: `readAll` + one
+  Stdout `write_all` + `ret` (Clauses 1–4), non-reading / prefix-reading (6–9), `AsyncBufRead` handlers
+  (Clauses 10–12).  Size side conditions (`… ≤ 100000`) are artefacts of the proofs (being removed in
+  `Props/C07Unbounded.lean`).
 
 **The conjuncts of `C07_headline`.**
 1. `C07E.single_request_e2e_full_holds` — Responder, canonical handler, any benign transport: one handler
@@ -1145,11 +1472,19 @@ end Fcgi.Headline
 2. `C07E.single_request_e2e_authorizer` — the same for an Authorizer
 3. `C07E.single_request_e2e_filter` — the same for a Filter (two input streams)
 4. `C07E.k_requests_e2e` — k keep-alive requests of mixed roles on one connection, closed-loop client
-5. `C07.reuse_iff` — the connection is reused iff KEEP_CONN was set and `close` succeeded
+5. `HeadlineExtra.C07_reuse_only_with_keepconn` = `C07.reuse_iff` + `C07.close_writes_epilogue` — the
+   connection goes on from `close` ONLY IF the request had KEEP_CONN, no writer was alive, and `close` wrote
+   everything pending plus the epilogue with the handler's status (step level; both directions at run level are
+   the `final` fields of Clauses 1–4)
 6. `C07U.unread_request_e2e` — handler reads nothing: served, the unread stream goes to the next request
    parser
 7. `C07U.unread_prefix_e2e_full_holds` — handler reads a strict prefix
 8. `C07U.authorizer_tail_e2e` — Authorizer followed by more traffic
+9. `C07U.unread_filter_e2e` — a Filter left wholly unread
+10. `C07B.single_request_bufread_e2e` — a handler that drains Stdin through `AsyncBufRead`
+   (`fill_buf`/`consume`)
+11. `C07B.bufread_then_readall_e2e` — `fill_buf`/`consume` followed by `read_to_end`
+12. `C07B.bufread_part_e2e` — a handler that consumes only part of what `fill_buf` showed
 
 **Modelling assumptions (obligations.json).**
 * executor fairness, real sockets and wakers beyond the harness' flag/counting wakers are outside the model
@@ -1161,8 +1496,8 @@ end Fcgi.Headline
   `data` to Stdou…
 
 **Not proved as theorems — carried by the differential run + oracle, or trusted.**
-* handlers other than the canonical / prefix-reading / non-reading ones, and transports with faults (those
-  are C12), are enumerated by the differential run + oracle
+* handlers outside those families (Stderr writes, several writers, multi-chunk output) and transports with
+  faults (C12) are enumerated by the differential run + oracle
 * executor fairness, real sockets and wakers are outside the model
 
 -/
@@ -1275,20 +1610,27 @@ end Fcgi.C07E
 end
 
 section
-namespace Fcgi.C07
+namespace Fcgi.Headline
 open Fcgi Fcgi.Req Fcgi.Str Fcgi.Async Fcgi.Run
-/-- the connection is reused iff KEEP_CONN was set and `close` succeeded  (= `Fcgi.C07.reuse_iff`, `Props/C07.lean`) -/
+
+/-- the connection goes on from `close` ONLY IF the request had KEEP_CONN, no writer was alive, and `close` wrote everything pending plus the epilogue with the handler's status (step level; both directions at run level are the `final` fields of Clauses 1–4)  (`HeadlineExtra.C07_reuse_only_with_keepconn` = `C07.reuse_iff` + `C07.close_writes_epilogue`) -/
 def C07Clause5 : Prop :=
   ∀ (c : Conn) (r : AReq) (cs : CloseSt) (status : ExitStatus) (alive : Nat)
-    (hp : c.phase = .closing r cs status alive),
-    (∃ c', stepConn c = .next c') ↔
-      ∃ r' cs' m t rp, closePoll r cs status alive c.env.mutex c.env.tr = (r', cs', m, t, .reuse rp)
+    (hp : c.phase = .closing r cs status alive) (hl : cs.late = false) {c' : Conn}
+    (hs : stepConn c = .next c'),
+    r.sp.request.flags.toNat % 2 = 1 ∧ alive = 0 ∧
+    ∃ r' cs' m t' rp X r2, closePoll r cs status alive c.env.mutex c.env.tr = (r', cs', m, t', .reuse rp) ∧
+      r2.sp.request = r.sp.request ∧
+      t'.wlog = c.env.tr.wlog ++ X ++ r2.sp.output ++ epilogueOf r2 status ∧
+      rp = Req.Parser.fromParser r'.sp.cap r'.sp.raw r'.sp.maxConns
 
 theorem C07Clause5_holds : C07Clause5 := by
   unfold C07Clause5
-  exact @reuse_iff
-
-end Fcgi.C07
+  intro c r cs status alive hp hl c' hs
+  obtain ⟨r', cs', m, t', rp, hc⟩ := (C07.reuse_iff c r cs status alive hp).1 ⟨c', hs⟩
+  obtain ⟨X, r2, h1, h2, h3, h4, h5⟩ := C07.close_writes_epilogue hc hl
+  exact ⟨h4, h3, r', cs', m, t', rp, X, r2, hc, h1, h2, h5⟩
+end Fcgi.Headline
 end
 
 section
@@ -1371,6 +1713,114 @@ theorem C07Clause8_holds : C07Clause8 := by
 end Fcgi.C07U
 end
 
+section
+namespace Fcgi.C07U
+open Fcgi Fcgi.Req Fcgi.Str Fcgi.Async Fcgi.Run Fcgi.Spec Fcgi.E2E Fcgi.C07E
+/-- a Filter left wholly unread  (= `Fcgi.C07U.unread_filter_e2e`, `Props/C07Unread4.lean`) -/
+def C07Clause9 : Prop :=
+  ∀ {p : Preamble} {recs : List Rec} {content : Bytes} {srecs : List Rec}
+    {content2 : Bytes} {drecs : List Rec}
+    {b mc : Nat} {st : ExitStatus} {more : List (List HOp × Bool)} {t : Transport} {fuel : Nat}
+    (hwf : WellFormedPreamble p recs) (hrole : p.role = 3) (hk : p.flags.toNat % 2 = 1)
+    (hpairs : ∀ q ∈ p.pairs, (NV.enc q).length ≤ alignedBufsize b)
+    (hnoise : NoiseFits (alignedBufsize b) recs)
+    (hs : StreamRecs p.id 5 content srecs) (hsn : NoiseFits (alignedBufsize b) srecs)
+    (hd : StreamRecs p.id 8 content2 drecs) (hdn : NoiseFits (alignedBufsize b) drecs)
+    (hnb : ∀ r ∈ drecs, r.rtype.toNat ≠ RT.beginRequest)
+    (hin : t.input = serAll recs ++ (serAll srecs ++ serAll drecs)) (hben : Ben t) (hev : hsCount t.events = 0)
+    (hfuel : t.rd.length + t.wr.length + 1 ≤ fuel)
+    (hsize : 6 * t.input.length + 26 ≤ 100000),
+    ∃ c' fin d₁ s₂, runTask fuel (connS b mc t (([.ret st], true) :: more)) 0 none = (c', fin) ∧
+      FilterOutcome p recs srecs drecs d₁ s₂ b mc st more t c' fin
+
+theorem C07Clause9_holds : C07Clause9 := by
+  unfold C07Clause9
+  exact @unread_filter_e2e
+
+end Fcgi.C07U
+end
+
+section
+namespace Fcgi.C07B
+open Fcgi Fcgi.Req Fcgi.Str Fcgi.Async Fcgi.Run Fcgi.Spec Fcgi.E2E Fcgi.C07E Fcgi.C07U
+/-- a handler that drains Stdin through `AsyncBufRead` (`fill_buf`/`consume`)  (= `Fcgi.C07B.single_request_bufread_e2e`, `Props/C07BufRead.lean`) -/
+def C07Clause10 : Prop :=
+  ∀ {p : Preamble} {recs : List Rec} {content : Bytes} {srecs : List Rec}
+    {b mc n k : Nat} {data : Bytes} {st : ExitStatus} {more : List (List HOp × Bool)} {t : Transport} {fuel : Nat}
+    (hwf : WellFormedPreamble p recs) (hrole : p.role = 1)
+    (hpairs : ∀ q ∈ p.pairs, (NV.enc q).length ≤ alignedBufsize b)
+    (hnoise : NoiseFits (alignedBufsize b) recs)
+    (hs : StreamRecs p.id 5 content srecs) (hsn : NoiseFits (alignedBufsize b) srecs)
+    (hk : 0 < k) (hn : content.length ≤ n)
+    (hin : t.input = serAll recs ++ serAll srecs) (hben : Ben t) (hev : hsCount t.events = 0)
+    (hfuel : t.rd.length + t.wr.length + 1 ≤ fuel)
+    (hsize : 6 * t.input.length + 26 ≤ 100000)
+    (hhf : 2 * n + wcost data.length + 10 ≤ 1000),
+    ∃ c' fin O₁ O₂ shown pad res,
+      runTask fuel (connS b mc t ((bscript n k data st, true) :: more)) 0 none = (c', fin) ∧
+      O₁ ++ O₂ = owedStream p.id 5 mc srecs ∧
+      BufReadOutcome p recs content k shown O₁ O₂ pad res b mc data st more t c' fin
+
+theorem C07Clause10_holds : C07Clause10 := by
+  unfold C07Clause10
+  exact @single_request_bufread_e2e
+
+end Fcgi.C07B
+end
+
+section
+namespace Fcgi.C07B
+open Fcgi Fcgi.Req Fcgi.Str Fcgi.Async Fcgi.Run Fcgi.Spec Fcgi.E2E Fcgi.C07E Fcgi.C07U
+/-- `fill_buf`/`consume` followed by `read_to_end`  (= `Fcgi.C07B.bufread_then_readall_e2e`, `Props/C07BufRead2.lean`) -/
+def C07Clause11 : Prop :=
+  ∀ {p : Preamble} {recs : List Rec} {content : Bytes} {srecs : List Rec}
+    {b mc n k : Nat} {data : Bytes} {st : ExitStatus} {more : List (List HOp × Bool)} {t : Transport} {fuel : Nat}
+    (hwf : WellFormedPreamble p recs) (hrole : p.role = 1)
+    (hpairs : ∀ q ∈ p.pairs, (NV.enc q).length ≤ alignedBufsize b)
+    (hnoise : NoiseFits (alignedBufsize b) recs)
+    (hs : StreamRecs p.id 5 content srecs) (hsn : NoiseFits (alignedBufsize b) srecs)
+    (hin : t.input = serAll recs ++ serAll srecs) (hben : Ben t) (hev : hsCount t.events = 0)
+    (hfuel : t.rd.length + t.wr.length + 1 ≤ fuel)
+    (hsize : 6 * t.input.length + 26 ≤ 100000)
+    (hhf : 2 * n + wcost data.length + 20 ≤ 1000),
+    ∃ c' fin O₁ O₂ shown acc pad res,
+      runTask fuel (connS b mc t ((bscript2 n k data st, true) :: more)) 0 none = (c', fin) ∧
+      O₁ ++ O₂ = owedStream p.id 5 mc srecs ∧
+      BufReadAllOutcome p recs content k shown acc O₁ O₂ pad res b mc data st more t c' fin
+
+theorem C07Clause11_holds : C07Clause11 := by
+  unfold C07Clause11
+  exact @bufread_then_readall_e2e
+
+end Fcgi.C07B
+end
+
+section
+namespace Fcgi.C07B
+open Fcgi Fcgi.Req Fcgi.Str Fcgi.Async Fcgi.Run Fcgi.Spec Fcgi.E2E Fcgi.C07E Fcgi.C07U
+/-- a handler that consumes only part of what `fill_buf` showed  (= `Fcgi.C07B.bufread_part_e2e`, `Props/C07BufRead2.lean`) -/
+def C07Clause12 : Prop :=
+  ∀ {p : Preamble} {recs : List Rec} {content : Bytes} {srecs : List Rec}
+    {b mc n k : Nat} {st : ExitStatus} {more : List (List HOp × Bool)} {t : Transport} {fuel : Nat}
+    (hwf : WellFormedPreamble p recs) (hrole : p.role = 1)
+    (hpairs : ∀ q ∈ p.pairs, (NV.enc q).length ≤ alignedBufsize b)
+    (hnoise : NoiseFits (alignedBufsize b) recs)
+    (hs : StreamRecs p.id 5 content srecs) (hsn : NoiseFits (alignedBufsize b) srecs)
+    (hnb : ∀ r ∈ srecs, r.rtype.toNat ≠ RT.beginRequest)
+    (hin : t.input = serAll recs ++ serAll srecs) (hben : Ben t) (hev : hsCount t.events = 0)
+    (hfuel : t.rd.length + t.wr.length + 1 ≤ fuel)
+    (hsize : 6 * t.input.length + 26 ≤ 100000) (hhf : 2 * n + 10 ≤ 1000),
+    ∃ c' fin s₁ s₂ shown,
+      runTask fuel (connS b mc t ((rounds n k ++ [.ret st], true) :: more)) 0 none = (c', fin) ∧
+      BufReadPartOutcome p recs content srecs s₁ s₂ k shown b mc st more t c' fin
+
+theorem C07Clause12_holds : C07Clause12 := by
+  unfold C07Clause12
+  exact @bufread_part_e2e
+
+end Fcgi.C07B
+end
+
 namespace Fcgi.Headline
 /-- **C07** — see the section comment above for the clause-by-clause reading. -/
 theorem C07_headline :
@@ -1378,11 +1828,15 @@ theorem C07_headline :
     Fcgi.C07E.C07Clause2 ∧
     Fcgi.C07E.C07Clause3 ∧
     Fcgi.C07E.C07Clause4 ∧
-    Fcgi.C07.C07Clause5 ∧
+    Fcgi.Headline.C07Clause5 ∧
     Fcgi.C07U.C07Clause6 ∧
     Fcgi.C07U.C07Clause7 ∧
-    Fcgi.C07U.C07Clause8 :=
-  ⟨Fcgi.C07E.C07Clause1_holds, Fcgi.C07E.C07Clause2_holds, Fcgi.C07E.C07Clause3_holds, Fcgi.C07E.C07Clause4_holds, Fcgi.C07.C07Clause5_holds, Fcgi.C07U.C07Clause6_holds, Fcgi.C07U.C07Clause7_holds, Fcgi.C07U.C07Clause8_holds⟩
+    Fcgi.C07U.C07Clause8 ∧
+    Fcgi.C07U.C07Clause9 ∧
+    Fcgi.C07B.C07Clause10 ∧
+    Fcgi.C07B.C07Clause11 ∧
+    Fcgi.C07B.C07Clause12 :=
+  ⟨Fcgi.C07E.C07Clause1_holds, Fcgi.C07E.C07Clause2_holds, Fcgi.C07E.C07Clause3_holds, Fcgi.C07E.C07Clause4_holds, Fcgi.Headline.C07Clause5_holds, Fcgi.C07U.C07Clause6_holds, Fcgi.C07U.C07Clause7_holds, Fcgi.C07U.C07Clause8_holds, Fcgi.C07U.C07Clause9_holds, Fcgi.C07B.C07Clause10_holds, Fcgi.C07B.C07Clause11_holds, Fcgi.C07B.C07Clause12_holds⟩
 end Fcgi.Headline
 
 
@@ -1399,15 +1853,16 @@ end Fcgi.Headline
 **Clause by clause.**
 * “whenever the connection task is suspended waiting for further input, every complete record it has already
   read has been processed and every reply owed for those records has been handed to the transport” — Clause
-  1 (`reachable_inv`) + Clauses 2–3 (`parked_owes_nothing`, `parked_processed`) at the poll level; Clause 4
-  names the one documented exception (`record_boundary()` reads without flushing — only inside a record the
-  peer has begun); executor level: Clause 6 (`runTask_stall_owes_nothing_partial`).
+  1 (`reachable_inv`) + Clauses 2–3 (`parked_owes_nothing`, `parked_processed`) at the poll level, ANY
+  transport, ANY handler script; executor level: Clause 6.  EXEMPTION inside `OwesNothing`: `close()` parked
+  in `record_boundary()` may hold unflushed replies (the crate's documented unflushed read) — Clause 4: only
+  inside a record the peer has begun.
 * “a client that sends a management query … and waits for the result always receives it …, and the two sides
-  can never wait on each other indefinitely” — Clause 5 (`stall_means_gate_closed`): when the wake-accurate
-  executor finds the task unrunnable, the peer's next gate is closed on the final write log — i.e. the peer
-  is not waiting for a reply that is still owed.  Without 'output mutex free' Clause 6 is false
-  (`…_full_false`: a handler ignoring a write error blocks on the mutex — the lock-kept-on-error hazard, not
-  a wait for input).
+  can never wait on each other indefinitely” — NOT a theorem.  Clause 5 (`stall_means_gate_closed`) is
+  definitional of the wake-accurate executor (a STALL leaves the next segment's gate closed); that the
+  property's peer (gate = 'the reply to my last query is in the log') can never be stalled with segments
+  left is carried by the differential run (never FUEL/STALL).  Without 'output mutex free' Clause 6 is false
+  (`…_full_false`).
 
 **The conjuncts of `C08_headline`.**
 1. `C08Inv.reachable_inv` — every connection state reachable by `runTask` satisfies the whole-poll invariant
@@ -1415,8 +1870,9 @@ end Fcgi.Headline
 3. `C08Inv.parked_processed` — … and has processed every complete record it read
 4. `C08Inv.boundary_park_mid_record` — the one unflushed read (`record_boundary`) parks only inside a record
    the peer has begun
-5. `C08Inv.stall_means_gate_closed` — executor: a STALL means the peer's next gate is closed on the final
-   log
+5. `C08Inv.stall_means_gate_closed` — executor: a STALL leaves the peer's next gate closed on the final log
+   (definitional of the wake-accurate executor; it does NOT say that the property's peer cannot be stalled —
+   see the not-proved list)
 6. `C08Inv.runTask_stall_owes_nothing_partial` — executor: at a STALL with the output mutex free the read
    waker is parked, nothing is owed, everything read is processed
 
@@ -1432,8 +1888,8 @@ end Fcgi.Headline
   has begun, which a whole-record peer completes
 
 **Not proved as theorems — carried by the differential run + oracle, or trusted.**
-* the peer is the property's peer (whole records, one request outstanding); liveness under a fair executor
-  is observed by the differential run (never FUEL/STALL)
+* the liveness sentence (the query is always answered; no mutual waiting): differential run + oracle only
+* the peer is the property's peer (whole records, one request outstanding)
 
 -/
 
@@ -1511,7 +1967,7 @@ section
 namespace Fcgi.C08Inv
 open Fcgi Fcgi.Req Fcgi.Str Fcgi.Async Fcgi.Run
 section Executor
-/-- executor: a STALL means the peer's next gate is closed on the final log  (= `Fcgi.C08Inv.stall_means_gate_closed`, `Props/C08Inv.lean`) -/
+/-- executor: a STALL leaves the peer's next gate closed on the final log (definitional of the wake-accurate executor; it does NOT say that the property's peer cannot be stalled — see the not-proved list)  (= `Fcgi.C08Inv.stall_means_gate_closed`, `Props/C08Inv.lean`) -/
 def C08Clause5 : Prop :=
   ∀ {fuel : Nat} {c c' : Conn} {n : Nat} {sa : Option Nat} (hinv : CInv c) (h : runTask fuel c n sa = (c', "STALL"))
     {g : Gate} {bs : Bytes} {rest : List (Gate × Bytes)} (hs : c'.env.segs = (g, bs) :: rest),
@@ -1573,12 +2029,15 @@ end Fcgi.Headline
   that persists” — Clauses 1–4 (`reads_are_prefix`, `reads_never_fail`, `eof_only_at_end`,
   `eof_persists_script`): for ANY script of `read n` / `fill` / `consume k` over a benign transport.
 * “selecting a later stream discards the rest of the current one and never yields bytes of any other stream”
-  — Clause 5 (`set_stream_async`) + C18 Clause 7.
-* “a request reports itself writeable, and hands out writers, only after every input stream before its last
-  has ended or been skipped past” — Clauses 6–7 (`open_iff_writeable`, `writeable_needs_stream_data`).
-  `writeable()` returning Ok while `is_writeable()` is false after a FAILED read is real
-  (`writeable_ready_sets_flag_full_false`, reproduced on the crate) and outside the property's compliant-
-  client clause.
+  — Clause 5 (`set_stream_async`) + C18 Clauses 7–8.  SCOPE of Clauses 1–4: scripts of `read n` / `fill` /
+  `consume k` only (no interleaved `set_stream`/`writeable`/writes), one active stream, one poll from the
+  invariant `RdSt` (preservation: `reads_poll`).
+* “a request reports itself writeable, and hands out output-stream writers, only after every input stream
+  before its last has ended or been skipped past” — Clause 6 (`open_iff_writeable`), Clause 8
+  (`writeable_pollInput`: the flag is set only with the FINAL stream active, never reset), Clause 9 (a
+  Filter that has only selected Data is not writeable), Clause 7 (the read that sets it delivered data of
+  the active stream or reached its end).  `writeable()` returning Ok while `is_writeable()` is false after a
+  FAILED read is real (`writeable_ready_sets_flag_full_false`) and outside the compliant-client clause.
 
 **The conjuncts of `C09_headline`.**
 1. `C09E.reads_are_prefix` — any script of reads over a benign transport: what the caller got is a prefix of
@@ -1588,7 +2047,12 @@ end Fcgi.Headline
 4. `C09E.eof_persists_script` — end-of-file persists
 5. `C09.set_stream_async` — selecting a later stream discards the rest of the current one
 6. `C09E.open_iff_writeable` — writers are handed out iff the request is writeable
-7. `C09E.writeable_needs_stream_data` — writeable only after the final stream's data was reached
+7. `C09E.writeable_needs_stream_data` — a `read(n>0)` that sets the writeable flag returned at least one
+   byte of the ACTIVE stream or reached its end
+8. `C09.writeable_pollInput` — the flag is set only while the FINAL input stream is active, and never reset
+9. `C09E.filter_select_not_writeable` — a Filter that has only selected Data (nothing read yet) is not
+   writeable
+10. `C09E.eof_persists` — after the end `read` returns 0 for good
 
 **Modelling assumptions (obligations.json).**
 * real wakers are not modelled at the poll level (the harness polls when the script says so)
@@ -1727,7 +2191,7 @@ end
 section
 namespace Fcgi.C09E
 open Fcgi Fcgi.Req Fcgi.Str Fcgi.Async Fcgi.Run Fcgi.E2E
-/-- writeable only after the final stream's data was reached  (= `Fcgi.C09E.writeable_needs_stream_data`, `Props/C09E2E.lean`) -/
+/-- a `read(n>0)` that sets the writeable flag returned at least one byte of the ACTIVE stream or reached its end  (= `Fcgi.C09E.writeable_needs_stream_data`, `Props/C09E2E.lean`) -/
 def C09Clause7 : Prop :=
   ∀ {K : RCtx} (hK : K.OK) {n : Nat} (hn : 0 < n) {L P : Bytes}
     {r : AReq} {m : MutexSt} {t : Transport} {dC dO : Bytes} {r' : AReq} {m' : MutexSt} {t' : Transport}
@@ -1742,6 +2206,61 @@ theorem C09Clause7_holds : C09Clause7 := by
 end Fcgi.C09E
 end
 
+section
+namespace Fcgi.C09
+open Fcgi Fcgi.Str Fcgi.Async
+/-- the flag is set only while the FINAL input stream is active, and never reset  (= `Fcgi.C09.writeable_pollInput`, `Props/C09.lean`) -/
+def C09Clause8 : Prop :=
+  ∀ {r : AReq} {dest : Option Nat} {m : MutexSt} {t : Transport}
+    {r' : AReq} {m' : MutexSt} {t' : Transport} {res : IRes} (hinv : AInv r) (hl : LockInv r m)
+    (h : r.pollInput dest m t = (r', m', t', res)),
+    (r.writeable = true → r'.writeable = true) ∧
+    (r.writeable = false → r'.writeable = true →
+      r'.isFinalStream = true ∧ r.isFinalStream = true ∧
+      nextInputStream r.sp.request.role r.sp.stream = none ∧ ∃ k d, res = .ready k d)
+
+theorem C09Clause8_holds : C09Clause8 := by
+  unfold C09Clause8
+  exact @writeable_pollInput
+
+end Fcgi.C09
+end
+
+section
+namespace Fcgi.C09E
+open Fcgi Fcgi.Req Fcgi.Str Fcgi.Async Fcgi.Run Fcgi.E2E
+/-- a Filter that has only selected Data (nothing read yet) is not writeable  (= `Fcgi.C09E.filter_select_not_writeable`, `Props/C09E2E.lean`) -/
+def C09Clause9 : Prop :=
+  ∀ (sp : Str.Parser) (hr : sp.request.role = 3) {r' : AReq} {s : Nat}
+    (h : (AReq.new sp).setStream s = some r'),
+    (AReq.new sp).writeable = false ∧ r'.writeable = false
+
+theorem C09Clause9_holds : C09Clause9 := by
+  unfold C09Clause9
+  exact @filter_select_not_writeable
+
+end Fcgi.C09E
+end
+
+section
+namespace Fcgi.C09E
+open Fcgi Fcgi.Req Fcgi.Str Fcgi.Async Fcgi.Run Fcgi.E2E
+section Main
+/-- after the end `read` returns 0 for good  (= `Fcgi.C09E.eof_persists`, `Props/C09E2E.lean`) -/
+def C09Clause10 : Prop :=
+  ∀ {K : RCtx} {L P : Bytes} {r : AReq} (hK : K.OK) {n : Nat} (hn : 0 < n) {m : MutexSt} {t : Transport} {dO : Bytes}
+    (hb : Ben t) (hs : BSt K L P r m t K.C dO) {r' : AReq} {m' : MutexSt} {t' : Transport} {k : Nat}
+    {d : Bytes} (hp : r.pollInput (some n) m t = (r', m', t', .ready k d)),
+    k = 0 ∧ d = []
+
+theorem C09Clause10_holds : C09Clause10 := by
+  unfold C09Clause10
+  exact @eof_persists
+
+end Main
+end Fcgi.C09E
+end
+
 namespace Fcgi.Headline
 /-- **C09** — see the section comment above for the clause-by-clause reading. -/
 theorem C09_headline :
@@ -1751,8 +2270,11 @@ theorem C09_headline :
     Fcgi.C09E.C09Clause4 ∧
     Fcgi.C09.C09Clause5 ∧
     Fcgi.C09E.C09Clause6 ∧
-    Fcgi.C09E.C09Clause7 :=
-  ⟨Fcgi.C09E.C09Clause1_holds, Fcgi.C09E.C09Clause2_holds, Fcgi.C09E.C09Clause3_holds, Fcgi.C09E.C09Clause4_holds, Fcgi.C09.C09Clause5_holds, Fcgi.C09E.C09Clause6_holds, Fcgi.C09E.C09Clause7_holds⟩
+    Fcgi.C09E.C09Clause7 ∧
+    Fcgi.C09.C09Clause8 ∧
+    Fcgi.C09E.C09Clause9 ∧
+    Fcgi.C09E.C09Clause10 :=
+  ⟨Fcgi.C09E.C09Clause1_holds, Fcgi.C09E.C09Clause2_holds, Fcgi.C09E.C09Clause3_holds, Fcgi.C09E.C09Clause4_holds, Fcgi.C09.C09Clause5_holds, Fcgi.C09E.C09Clause6_holds, Fcgi.C09E.C09Clause7_holds, Fcgi.C09.C09Clause8_holds, Fcgi.C09E.C09Clause9_holds, Fcgi.C09E.C09Clause10_holds⟩
 end Fcgi.Headline
 
 
@@ -1796,6 +2318,11 @@ end Fcgi.Headline
   the operation set (`drop_mid_record_hazard`)
 * `Writer.clone` is the repaired Clone impl (fix 7eb5f08; the old one is refuted: `old_clone_breaks_loginv`)
 * mutex waiter wake-ups not modelled
+* the request's own replies enter the log as the bytes one `poll_output` wrote (`Entry.reply`, an opaque
+  chunk): that they are WHOLE records needs 'the output buffer holds whole records' (C04) + 'the request
+  keeps the mutex until the buffer is empty' — not composed here; per-writer byte order is implicit in
+  `completed` being in completion order
+* buffers of size 0 are `empty_write` (registered, not a conjunct)
 
 -/
 
@@ -1956,9 +2483,13 @@ end Fcgi.Headline
   (`abort_mid_stream_prefix_e2e`, `foreign_abort_ignored_e2e`, `abort_mid_stream_next_e2e`); Clause 7
   (`filter_abort_table_full`): every abort placement × handler row for a Filter, exactly one EndRequest
   each.
+* “Responder cells beyond the canonical reading handler” — Clauses 8–11: abort in Params with nothing behind
+  it, own status + KEEP_CONN, `close` tolerating the aborted state at poll level (handler not reading / past
+  end-of-stream: no e2e theorem), the error kind.
 
 **The conjuncts of `C11_headline`.**
-1. `C11E.abort_in_params_e2e` — abort inside Params: one EndRequest(RequestComplete), no handler
+1. `C11E.abort_in_params_e2e` — abort inside Params (followed by a complete request `q`): one
+   EndRequest(RequestComplete), no handler; alone: Clause 8
 2. `C11E.abort_mid_stream_e2e` — abort later: the handler's next read fails with ConnectionAborted, one
    EndRequest with the abort status
 3. `C11E.abort_own_status_e2e` — … unless the handler chose its own status
@@ -1966,6 +2497,12 @@ end Fcgi.Headline
 5. `C11E.foreign_abort_ignored_e2e` — an AbortRequest for another id is ignored
 6. `C11E.abort_mid_stream_next_e2e` — with KEEP_CONN the connection serves the next request
 7. `C11F.filter_abort_table_full` — Filter: every placement of the abort × handler row
+8. `C11E.abort_in_params_alone_e2e` — abort inside Params with nothing behind it
+9. `C11E.abort_own_status_next_e2e` — own status + KEEP_CONN: the next request is served
+10. `C11.close_tolerates_abort` — poll level: a Responder that does not read / is past end-of-stream —
+   `close` tolerates the aborted state
+11. `C11.abort_maps_to_connection_aborted` — the error KIND: the parser's abort signal reaches the handler
+   as ConnectionAborted
 
 **Modelling assumptions (obligations.json).**
 * end-to-end (Props/C11E2E, benign transports = arbitrary splitting/Pendings, no errors):
@@ -1980,6 +2517,8 @@ end Fcgi.Headline
   keeps th…
 
 **Not proved as theorems — carried by the differential run + oracle, or trusted.**
+* a Responder that does not read / reads through `fill_buf` / is past end-of-stream when the abort arrives:
+  poll level only (Clause 10); 'at once' as a timing statement is not stated (the log position is)
 * other handlers, faulty transports and the interplay with management traffic are enumerated by the
   differential run
 
@@ -1988,7 +2527,7 @@ end Fcgi.Headline
 section
 namespace Fcgi.C11E
 open Fcgi Fcgi.Req Fcgi.Str Fcgi.Async Fcgi.Run Fcgi.Spec Fcgi.E2E Fcgi.C07E
-/-- abort inside Params: one EndRequest(RequestComplete), no handler  (= `Fcgi.C11E.abort_in_params_e2e`, `Props/C11E2E.lean`) -/
+/-- abort inside Params (followed by a complete request `q`): one EndRequest(RequestComplete), no handler; alone: Clause 8  (= `Fcgi.C11E.abort_in_params_e2e`, `Props/C11E2E.lean`) -/
 def C11Clause1 : Prop :=
   ∀ {p : Preamble} {hd suf : List Rec} {a : Rec} {b mc : Nat} {q : Sent}
     {t : Transport} {fuel : Nat}
@@ -2220,6 +2759,99 @@ theorem C11Clause7_holds : C11Clause7 := by
 end Fcgi.C11F
 end
 
+section
+namespace Fcgi.C11E
+open Fcgi Fcgi.Req Fcgi.Str Fcgi.Async Fcgi.Run Fcgi.Spec Fcgi.E2E Fcgi.C07E
+/-- abort inside Params with nothing behind it  (= `Fcgi.C11E.abort_in_params_alone_e2e`, `Props/C11E2E.lean`) -/
+def C11Clause8 : Prop :=
+  ∀ {p : Preamble} {hd suf : List Rec} {a : Rec} {b mc : Nat}
+    {sc : List (List HOp × Bool)} {t : Transport} {fuel : Nat}
+    (hwf : WellFormedPreamble p (hd ++ suf)) (hsuf : suf ≠ []) (hbeg : ∃ r ∈ hd, ¬ IdleNoise r)
+    (ha : IsAbort p.id a)
+    (hpairs : ∀ x ∈ p.pairs, (NV.enc x).length ≤ alignedBufsize b)
+    (hnoise : NoiseFits (alignedBufsize b) (hd ++ suf))
+    (hin : t.input = serAll hd ++ a.ser) (hben : Ben t) (hev : hsCount t.events = 0)
+    (hfuel : t.rd.length + t.wr.length + 1 ≤ fuel)
+    (hsize : 6 * t.input.length + 26 ≤ 100000),
+    ∃ c' fin, runTask fuel (connS b mc t sc) 0 none = (c', fin) ∧
+      c'.env.tr.wlog = t.wlog ++ (owedPreamble p mc hd ++ abortReply p.id) ∧
+      hsCount c'.env.tr.events = 0 ∧ c'.scripts = sc ∧
+      ((t.endMode = .eof ∧ fin = "RET" ∧ c'.phase = .finished) ∨
+       (t.endMode = .pend ∧ fin = "STALL" ∧
+         c'.phase = .parseReq ⟨alignedBufsize b, [], .header, mc⟩ .reading ∧ c'.env.tr.input = []))
+
+theorem C11Clause8_holds : C11Clause8 := by
+  unfold C11Clause8
+  exact @abort_in_params_alone_e2e
+
+end Fcgi.C11E
+end
+
+section
+namespace Fcgi.C11E
+open Fcgi Fcgi.Req Fcgi.Str Fcgi.Async Fcgi.Run Fcgi.Spec Fcgi.E2E Fcgi.C07E
+/-- own status + KEEP_CONN: the next request is served  (= `Fcgi.C11E.abort_own_status_next_e2e`, `Props/C11E2E.lean`) -/
+def C11Clause9 : Prop :=
+  ∀ {p : Preamble} {recs : List Rec} {c1 : Bytes} {body : List Rec} {a : Rec}
+    {b mc : Nat} {st : ExitStatus} {q : Sent} {t : Transport} {fuel : Nat}
+    (hwf : WellFormedPreamble p recs) (hrole : p.role = 1) (hk : p.flags.toNat % 2 = 1)
+    (hpairs : ∀ x ∈ p.pairs, (NV.enc x).length ≤ alignedBufsize b)
+    (hnoise : NoiseFits (alignedBufsize b) recs)
+    (hbody : Body p.id 5 c1 body) (hbn : NoiseFits (alignedBufsize b) body) (ha : IsAbort p.id a)
+    (hq : q.OK b)
+    (hin : t.input = serAll recs ++ (serAll body ++ (a.ser ++ q.wire))) (hben : Ben t)
+    (hev : hsCount t.events = 0) (hfuel : t.rd.length + t.wr.length + 1 ≤ fuel)
+    (hsize : 6 * t.input.length + 26 ≤ 100000) (hhf : alignedBufsize b / 32 + 12 ≤ 1000),
+    ∃ c' fin O₁ O₂ P₁ P₂,
+      runTask fuel (connS b mc t [([.readAll, .ret st], false), q.handler]) 0 none = (c', fin) ∧
+      O₁ ++ O₂ = owedStream p.id 5 mc body ∧ P₁ ++ P₂ = q.owed mc ∧
+      c'.env.tr.wlog = t.wlog ++ (owedPreamble p mc recs ++ O₁ ++ O₂ ++ epilogue p.id st ++
+        expectedLogN q.p q.recs mc q.data q.st P₁ P₂) ∧
+      hsCount c'.env.tr.events = 2 ∧ AbortedOutcome p c1 c' ∧ NextOutcome q b mc t c' fin
+
+theorem C11Clause9_holds : C11Clause9 := by
+  unfold C11Clause9
+  exact @abort_own_status_next_e2e
+
+end Fcgi.C11E
+end
+
+section
+namespace Fcgi.C11
+open Fcgi Fcgi.Req Fcgi.Str Fcgi.Async Fcgi.Run
+/-- poll level: a Responder that does not read / is past end-of-stream — `close` tolerates the aborted state  (= `Fcgi.C11.close_tolerates_abort`, `Props/C11.lean`) -/
+def C11Clause10 : Prop :=
+  ∀ {r : AReq} {cs : CloseSt} {alive : Nat} {m : MutexSt}
+    {t : Transport} {r' : AReq} {cs' : CloseSt} {m' : MutexSt} {t' : Transport} {rp : Req.Parser}
+    (h : closePoll r cs ExitStatus.abort alive m t = (r', cs', m', t', .reuse rp)) (hl : cs.late = false),
+    ∃ (X : Bytes) (r2 : AReq), r2.sp.request = r.sp.request ∧
+      t'.wlog = t.wlog ++ X ++ r2.sp.output ++
+        ((if r2.writeable then
+            RecordHeader.toBytes ⟨RT.stdout, r.sp.request.id, 0, 0⟩ ++ RecordHeader.toBytes ⟨RT.stderr, r.sp.request.id, 0, 0⟩
+          else []) ++ EndRequest.toRecord ⟨1094865492, 0⟩ r.sp.request.id)
+
+theorem C11Clause10_holds : C11Clause10 := by
+  unfold C11Clause10
+  exact @close_tolerates_abort
+
+end Fcgi.C11
+end
+
+section
+namespace Fcgi.C11
+open Fcgi Fcgi.Req Fcgi.Str Fcgi.Async Fcgi.Run
+/-- the error KIND: the parser's abort signal reaches the handler as ConnectionAborted  (= `Fcgi.C11.abort_maps_to_connection_aborted`, `Props/C11.lean`) -/
+def C11Clause11 : Prop :=
+  ioOfPErr .abortRequest = .abortRequest ∧
+    ∀ e, ioOfPErr e = .abortRequest → e = .abortRequest
+
+theorem C11Clause11_holds : C11Clause11 := by
+  unfold C11Clause11
+  exact @abort_maps_to_connection_aborted
+
+end Fcgi.C11
+end
+
 namespace Fcgi.Headline
 /-- **C11** — see the section comment above for the clause-by-clause reading. -/
 theorem C11_headline :
@@ -2229,8 +2861,12 @@ theorem C11_headline :
     Fcgi.C11E.C11Clause4 ∧
     Fcgi.C11E.C11Clause5 ∧
     Fcgi.C11E.C11Clause6 ∧
-    Fcgi.C11F.C11Clause7 :=
-  ⟨Fcgi.C11E.C11Clause1_holds, Fcgi.C11E.C11Clause2_holds, Fcgi.C11E.C11Clause3_holds, Fcgi.C11E.C11Clause4_holds, Fcgi.C11E.C11Clause5_holds, Fcgi.C11E.C11Clause6_holds, Fcgi.C11F.C11Clause7_holds⟩
+    Fcgi.C11F.C11Clause7 ∧
+    Fcgi.C11E.C11Clause8 ∧
+    Fcgi.C11E.C11Clause9 ∧
+    Fcgi.C11.C11Clause10 ∧
+    Fcgi.C11.C11Clause11 :=
+  ⟨Fcgi.C11E.C11Clause1_holds, Fcgi.C11E.C11Clause2_holds, Fcgi.C11E.C11Clause3_holds, Fcgi.C11E.C11Clause4_holds, Fcgi.C11E.C11Clause5_holds, Fcgi.C11E.C11Clause6_holds, Fcgi.C11F.C11Clause7_holds, Fcgi.C11E.C11Clause8_holds, Fcgi.C11E.C11Clause9_holds, Fcgi.C11.C11Clause10_holds, Fcgi.C11.C11Clause11_holds⟩
 end Fcgi.Headline
 
 
@@ -2247,10 +2883,11 @@ end Fcgi.Headline
 **Clause by clause.**
 * “EOF or an error at any byte position of the incoming stream, or on any write: the task terminates without
   panicking or spinning” — Clauses 1–3 (EOF at ANY offset, all three roles: always `RET`/`finished`), Clause
-  5 (`write_error_e2e`), Clause 8 (`model_panics_are_code_panics`: fuel/progress guards unreachable, every
-  model PANIC is a crate assertion).
+  10 (the transport FAILS instead of ending, any offset), Clause 9 (a read error at ANY read-call index),
+  Clause 5 (`write_error_e2e`), Clause 8 (`run_panics_are_code_panics`: every PANIC of a poll is the script-
+  fuel guard or a crate assertion; no size bound).
 * “no handler is invoked for a request whose preamble did not arrive completely” — the `k < |preamble| →
-  hsCount = 0` conjuncts of Clauses 1–3.
+  hsCount = 0` conjuncts of Clauses 1–3 and 10; Clause 11 (read error inside the preamble).
 * “a handler waiting for input that will never come receives an unexpected-EOF (or the transport's) error
   rather than a successful short or empty read” — the `readEofEvent` conjuncts of Clauses 1–2; Clause 4
   (`read_err_mid_stream_e2e`: exactly the transport's error).
@@ -2269,8 +2906,12 @@ end Fcgi.Headline
 6. `C12Inv.runTask_write_failure` — fail-stop for propagating handlers over whole runs
 7. `C12Inv.prefix_wellformed_partial` — the write log is at every moment a prefix of a well-formed record
    sequence
-8. `C12Fuel.model_panics_are_code_panics` — no panic/spin: every PANIC of the model is an assertion of the
-   crate, fuel guards unreachable
+8. `C12Fuel.run_panics_are_code_panics` — no panic/spin, no size bound: a PANIC of a poll made by `runTask`
+   (fuel `connFuel c`) is the handler-script fuel guard or a real assertion of the crate
+9. `C12E.read_error_at_index_e2e` — a read ERROR injected at ANY read-call index
+10. `C12E.read_err_any_offset_e2e` — the transport FAILS (instead of ending) at ANY byte offset: RET, same
+   log and handler count as the EOF run (from `runTask_eof_err`)
+11. `C12E.read_err_in_preamble_e2e` — a read error inside the preamble is swallowed: no handler
 
 **Modelling assumptions (obligations.json).**
 * handlerPoll fuel is proved sufficient for scripts without read-to-end loops (a harness-script bound, not a
@@ -2284,8 +2925,9 @@ end Fcgi.Headline
 
 **Not proved as theorems — carried by the differential run + oracle, or trusted.**
 * OPEN: `prefix_wellformed_full` for `max_conns ≥ 2^64` (outside the code's usize)
-* whole-run closed forms for READ ERRORS during `close()` are proved at poll level only (`C12E2E8`);
-  termination of the real task is observed by the wake-accurate executor
+* single request, canonical handlers in the e2e clauses; faults on connections with k > 1 requests and read
+  errors during `close()` (poll level: `C12E2E8`) are carried by the differential run; termination of the
+  real task is observed by the wake-accurate executor
 
 -/
 
@@ -2504,20 +3146,109 @@ end
 section
 namespace Fcgi.C12Fuel
 open Fcgi Fcgi.Req Fcgi.Str Fcgi.Async Fcgi.Run
-/-- no panic/spin: every PANIC of the model is an assertion of the crate, fuel guards unreachable  (= `Fcgi.C12Fuel.model_panics_are_code_panics`, `Props/C12Fuel.lean`) -/
+/-- no panic/spin, no size bound: a PANIC of a poll made by `runTask` (fuel `connFuel c`) is the handler-script fuel guard or a real assertion of the crate  (= `Fcgi.C12Fuel.run_panics_are_code_panics`, `Props/C12Fuel.lean`) -/
 def C12Clause8 : Prop :=
   ∀ (c : Conn) (hwf : ConnWF c)
-    (hsize : 7 * c.env.tr.input.length + 5 * bufLen c.phase + 10 < 100000)
-    {c' : Conn} {s : String} (h : pollConn 100000 c = (c', .panic s)),
+    {c' : Conn} {s : String} (h : pollConn (connFuel c) c = (c', .panic s)),
     s = "model: handler fuel exhausted" ∨
       (RealSite s ∧ s ∉ fuelMsgs ∧ s ≠ "model: unreachable close state" ∧
         s ≠ "model: drive loop made no progress")
 
 theorem C12Clause8_holds : C12Clause8 := by
   unfold C12Clause8
-  exact @model_panics_are_code_panics
+  exact @run_panics_are_code_panics
 
 end Fcgi.C12Fuel
+end
+
+section
+namespace Fcgi.C12E
+open Fcgi Fcgi.Req Fcgi.Str Fcgi.Async Fcgi.Run Fcgi.Spec Fcgi.E2E Fcgi.C07E Fcgi.C12Inv Fcgi.Indep3
+/-- a read ERROR injected at ANY read-call index  (= `Fcgi.C12E.read_error_at_index_e2e`, `Props/C12E2E4.lean`) -/
+def C12Clause9 : Prop :=
+  ∀ {p : Preamble} {recs : List Rec} {content : Bytes} {srecs : List Rec}
+    {b mc : Nat} {data : Bytes} {st : ExitStatus} {t : Transport} {fuel : Nat}
+    (pre post : List RdAns) (hrd : t.rd = pre ++ .err :: post)
+    (hwf : WellFormedPreamble p recs) (hrole : p.role = 1)
+    (hpairs : ∀ q ∈ p.pairs, (NV.enc q).length ≤ alignedBufsize b)
+    (hnoise : NoiseFits (alignedBufsize b) recs)
+    (hs : StreamRecs p.id 5 content srecs) (hsn : NoiseFits (alignedBufsize b) srecs)
+    (hin : t.input = serAll recs ++ serAll srecs) (hben : Ben { t with rd := pre }) (hev : hsCount t.events = 0)
+    (hfuel : pre.length + t.wr.length + 1 ≤ fuel)
+    (hsize : 4 * t.input.length + 17 ≤ 100000)
+    (hhf : alignedBufsize b / 32 + wcost data.length + 12 ≤ 1000),
+    ∃ c' fin O₁ O₂, runTask fuel (conn0 b mc t data st) 0 none = (c', fin) ∧
+      O₁ ++ O₂ = owedStream p.id 5 mc srecs ∧
+      ((∃ c1, c' = extC ⟨.err :: post, [], []⟩ c1 ∧
+          OutcomeN p content b mc t.wlog (expectedLogN p recs mc data st O₁ O₂) { t with rd := pre } c1 fin) ∨
+       (fin = "RET" ∧ c'.phase = .finished ∧
+        (∃ w, c'.env.tr.wlog = t.wlog ++ w ∧ w <+: expectedLogN p recs mc data st O₁ O₂) ∧
+        hsCount c'.env.tr.events ≤ 1 ∧
+        (∃ e inH, (e = .connectionAborted ∨ e = .transportRead) ∧
+          (inH = true → ∃ evs, c'.env.tr.events = evs ++ [handlerErrEv e]))))
+
+theorem C12Clause9_holds : C12Clause9 := by
+  unfold C12Clause9
+  exact @read_error_at_index_e2e
+
+end Fcgi.C12E
+end
+
+section
+namespace Fcgi.C12E
+open Fcgi Fcgi.Req Fcgi.Str Fcgi.Async Fcgi.Run Fcgi.Spec Fcgi.E2E Fcgi.C07E Fcgi.C07U Fcgi.C12Inv Fcgi.EofErr
+/-- the transport FAILS (instead of ending) at ANY byte offset: RET, same log and handler count as the EOF run (from `runTask_eof_err`)  (= `Fcgi.C12E.read_err_any_offset_e2e`, `Props/C12E2E9.lean`) -/
+def C12Clause10 : Prop :=
+  ∀ {p : Preamble} {recs : List Rec} {content : Bytes} {srecs : List Rec}
+    {b mc : Nat} {data : Bytes} {st : ExitStatus} {t : Transport} {fuel : Nat} (k : Nat)
+    (hwf : WellFormedPreamble p recs) (hrole : p.role = 1)
+    (hpairs : ∀ q ∈ p.pairs, (NV.enc q).length ≤ alignedBufsize b)
+    (hnoise : NoiseFits (alignedBufsize b) recs)
+    (hs : StreamRecs p.id 5 content srecs) (hsn : NoiseFits (alignedBufsize b) srecs)
+    (hin : t.input = (serAll recs ++ serAll srecs).take k) (hben : Ben t) (hem : t.endMode = .eof)
+    (hev : hsCount t.events = 0) (hfuel : t.rd.length + t.wr.length + 1 ≤ fuel)
+    (hsize : 4 * t.input.length + 17 ≤ 100000)
+    (hhf : alignedBufsize b / 32 + wcost data.length + 12 ≤ 1000),
+    ∃ c' O₁ O₂, runTask fuel (conn0 b mc (em .err t) data st) 0 none = (c', "RET") ∧ c'.phase = .finished ∧
+      O₁ ++ O₂ = owedStream p.id 5 mc srecs ∧
+      (∃ w, c'.env.tr.wlog = t.wlog ++ w ∧ w <+: expectedLogN p recs mc data st O₁ O₂) ∧
+      hsCount c'.env.tr.events ≤ 1 ∧
+      (k < (serAll recs).length → hsCount c'.env.tr.events = 0) ∧
+      ((serAll recs).length ≤ k → hsCount c'.env.tr.events = 1 ∧ startEvent p.request ∈ c'.env.tr.events) ∧
+      ((serAll recs).length + (serAll srecs.dropLast).length + 8 ≤ k →
+        c'.env.tr.wlog = t.wlog ++ expectedLogN p recs mc data st O₁ O₂) ∧
+      -- the relation to the EOF run
+      ∃ ce, runTask fuel (conn0 b mc t data st) 0 none = (ce, "RET") ∧ (c' = emC .err ce ∨ HitC ce c')
+
+theorem C12Clause10_holds : C12Clause10 := by
+  unfold C12Clause10
+  exact @read_err_any_offset_e2e
+
+end Fcgi.C12E
+end
+
+section
+namespace Fcgi.C12E
+open Fcgi Fcgi.Req Fcgi.Str Fcgi.Async Fcgi.Run Fcgi.Spec Fcgi.E2E Fcgi.C07E
+/-- a read error inside the preamble is swallowed: no handler  (= `Fcgi.C12E.read_err_in_preamble_e2e`, `Props/C12E2E2.lean`) -/
+def C12Clause11 : Prop :=
+  ∀ {p : Preamble} {recs : List Rec} (X : Bytes) (b mc k : Nat)
+    (scripts : List (List HOp × Bool)) (t : Transport) (fuel : Nat)
+    (hwf : WellFormedPreamble p recs)
+    (hpairs : ∀ q ∈ p.pairs, (NV.enc q).length ≤ alignedBufsize b) (hnoise : NoiseFits (alignedBufsize b) recs)
+    (hk : k < (serAll recs).length) (hin : t.input = (serAll recs ++ X).take k)
+    (hb : BenE t) (hem : t.endMode = .err)
+    (hfuel : t.rd.length + t.wr.length + 1 ≤ fuel) (hlen : 2 * t.input.length + 5 ≤ 100000),
+    ∃ c', runTask fuel (connS b mc t scripts) 0 none = (c', "RET") ∧ c'.phase = .finished ∧
+      c'.env.tr.input = [] ∧ hsCount c'.env.tr.events = hsCount t.events ∧ c'.scripts = scripts ∧
+      c'.env.tr.wlog = t.wlog ++ (run .header t.input mc).out ∧
+      (run .header t.input mc).out <+: owedPreamble p mc recs
+
+theorem C12Clause11_holds : C12Clause11 := by
+  unfold C12Clause11
+  exact @read_err_in_preamble_e2e
+
+end Fcgi.C12E
 end
 
 namespace Fcgi.Headline
@@ -2530,8 +3261,11 @@ theorem C12_headline :
     Fcgi.C12E.C12Clause5 ∧
     Fcgi.C12Inv.C12Clause6 ∧
     Fcgi.C12Inv.C12Clause7 ∧
-    Fcgi.C12Fuel.C12Clause8 :=
-  ⟨Fcgi.C12E.C12Clause1_holds, Fcgi.C12E.C12Clause2_holds, Fcgi.C12E.C12Clause3_holds, Fcgi.C12E.C12Clause4_holds, Fcgi.C12E.C12Clause5_holds, Fcgi.C12Inv.C12Clause6_holds, Fcgi.C12Inv.C12Clause7_holds, Fcgi.C12Fuel.C12Clause8_holds⟩
+    Fcgi.C12Fuel.C12Clause8 ∧
+    Fcgi.C12E.C12Clause9 ∧
+    Fcgi.C12E.C12Clause10 ∧
+    Fcgi.C12E.C12Clause11 :=
+  ⟨Fcgi.C12E.C12Clause1_holds, Fcgi.C12E.C12Clause2_holds, Fcgi.C12E.C12Clause3_holds, Fcgi.C12E.C12Clause4_holds, Fcgi.C12E.C12Clause5_holds, Fcgi.C12Inv.C12Clause6_holds, Fcgi.C12Inv.C12Clause7_holds, Fcgi.C12Fuel.C12Clause8_holds, Fcgi.C12E.C12Clause9_holds, Fcgi.C12E.C12Clause10_holds, Fcgi.C12E.C12Clause11_holds⟩
 end Fcgi.Headline
 
 
@@ -2557,7 +3291,8 @@ end Fcgi.Headline
 1. `C13.limit_inv` — over all histories: live tokens ≤ limit
 2. `C13.immediate` — a poll that finds a free slot acquires it at once (ready, count − 1)
 3. `C13.no_stranded` — a free slot with pending requests ⇒ one of them has been woken
-4. `C13.cancel_safe` — cancelling (dropping) a pending request preserves the invariant behind `no_stranded`
+4. `C13.cancel_safe` — (redundant, internal) cancelling a pending request preserves the invariant `Inv`
+   behind Clause 3; `dropPending` is also among the ops of Clause 3
 5. `C13.woken_waiter_acquires` — a woken waiter that polls gets the slot
 
 **Modelling assumptions (obligations.json).**
@@ -2571,9 +3306,11 @@ end Fcgi.Headline
   registered waiters o…
 
 **Not proved as theorems — carried by the differential run + oracle, or trusted.**
-* op-atomic model: interleavings INSIDE one library operation (the CAS loop of `try_acquire_arc`, the
-  listener-list mutex) and thread interleavings are trusted / exercised by the differential run with real
-  threads
+* interleavings INSIDE one library operation (the CAS loop of `try_acquire_arc`, the listener-list mutex)
+  and real thread interleavings: trusted / exercised by the differential run with real threads (op-atomic
+  model)
+* 'pending requests' = polled, registered waiters; a created but never polled future is not one (lazy `async
+  fn`)
 * notify(1) is non-additional (wake-ups are chained) — by design of the library
 
 -/
@@ -2628,7 +3365,7 @@ end
 section
 namespace Fcgi.C13
 open Fcgi.Runner
-/-- cancelling (dropping) a pending request preserves the invariant behind `no_stranded`  (= `Fcgi.C13.cancel_safe`, `Props/C13.lean`) -/
+/-- (redundant, internal) cancelling a pending request preserves the invariant `Inv` behind Clause 3; `dropPending` is also among the ops of Clause 3  (= `Fcgi.C13.cancel_safe`, `Props/C13.lean`) -/
 def C13Clause4 : Prop :=
   ∀ {s : Sys} (h : Inv s) (a : Nat),
     Inv (step s (.dropPending a))
@@ -2712,10 +3449,14 @@ end Fcgi.Headline
   parse_reque…
 
 **Not proved as theorems — carried by the differential run + oracle, or trusted.**
+* 'idle connections ARE WOKEN': that raising the flag wakes a parked task is built into the executor
+  (`runTask … stopAt` polls at poll k even after a STALL), not a theorem about the stop listener (two-waker
+  model: `C13Conn` + corpus)
 * `AtomicWaker::register/wake` and Arc counting are atomic steps of the model; real thread schedules are
   exercised by the differential run
 * a poll already in flight with a buffered successor sees the flag at the reuse
   (`in_flight_runs_on_full_false`) — the specified behaviour
+* canonical handlers, `Ben`, flag raised at a poll boundary of the executor (Clauses 1–2)
 
 -/
 
@@ -2900,7 +3641,10 @@ end Fcgi.Headline
 > otherwise.
 
 **Clause by clause.**
-* “round trip, sizes, conversions, decode failure” — Clauses 1–6, each a direct restatement.
+* “round trip, sizes, conversions” — Clauses 1–5.
+* “decoding succeeds exactly when the one or four bytes announced by the first byte are present, failing
+  with unexpected-EOF otherwise” — Clause 6: FAILS exactly then (`decode` returns an `Option`: the error
+  KIND cannot be stated); Clause 7: what any four bytes decode to.
 
 **The conjuncts of `C15_headline`.**
 1. `C15.roundtrip` — decode (encode v) = v, consuming exactly the encoded bytes
@@ -2908,13 +3652,17 @@ end Fcgi.Headline
 3. `C15.encode_long` — four bytes, high bit set, big endian otherwise
 4. `C15.tryFromU32_iff` — conversion from u32 succeeds exactly in range
 5. `C15.tryFromUsize_iff` — conversion from usize succeeds exactly in range
-6. `C15.decode_none_iff` — decoding fails exactly when the announced bytes are missing
+6. `C15.decode_none_iff` — decoding FAILS exactly when the one or four bytes announced by the first byte are
+   missing (the error kind is not visible: `decode` returns an `Option`)
+7. `C15.decode_any_four` — what ANY four bytes with the high bit set decode to (also the non-canonical
+   encodings)
 
 **Modelling assumptions (obligations.json).**
 * usize is 64 bit
 * Read for &[u8] / Write for Vec<u8> behave as documented in std
 
 **Not proved as theorems — carried by the differential run + oracle, or trusted.**
+* the error kind (unexpected-EOF) of a failed decode: not visible in the model, differential run
 * std `Read for &[u8]` / `Write for Vec<u8>` as documented; usize = 64 bit
 
 -/
@@ -2998,7 +3746,7 @@ end
 section
 namespace Fcgi.C15
 open Fcgi Fcgi.VarInt
-/-- decoding fails exactly when the announced bytes are missing  (= `Fcgi.C15.decode_none_iff`, `Props/C15.lean`) -/
+/-- decoding FAILS exactly when the one or four bytes announced by the first byte are missing (the error kind is not visible: `decode` returns an `Option`)  (= `Fcgi.C15.decode_none_iff`, `Props/C15.lean`) -/
 def C15Clause6 : Prop :=
   ∀ (bs : Bytes),
     decode bs = none ↔ bs = [] ∨ ∃ b0 r, bs = b0 :: r ∧ 128 ≤ b0.toNat ∧ r.length < 3
@@ -3006,6 +3754,22 @@ def C15Clause6 : Prop :=
 theorem C15Clause6_holds : C15Clause6 := by
   unfold C15Clause6
   exact @decode_none_iff
+
+end Fcgi.C15
+end
+
+section
+namespace Fcgi.C15
+open Fcgi Fcgi.VarInt
+/-- what ANY four bytes with the high bit set decode to (also the non-canonical encodings)  (= `Fcgi.C15.decode_any_four`, `Props/C15.lean`) -/
+def C15Clause7 : Prop :=
+  ∀ (b0 b1 b2 b3 : UInt8) (r : Bytes) (h : 128 ≤ b0.toNat),
+    decode (b0 :: b1 :: b2 :: b3 :: r) =
+      some ((b0.toNat - 128) * 16777216 + b1.toNat * 65536 + b2.toNat * 256 + b3.toNat, r)
+
+theorem C15Clause7_holds : C15Clause7 := by
+  unfold C15Clause7
+  exact @decode_any_four
 
 end Fcgi.C15
 end
@@ -3018,8 +3782,9 @@ theorem C15_headline :
     Fcgi.C15.C15Clause3 ∧
     Fcgi.C15.C15Clause4 ∧
     Fcgi.C15.C15Clause5 ∧
-    Fcgi.C15.C15Clause6 :=
-  ⟨Fcgi.C15.C15Clause1_holds, Fcgi.C15.C15Clause2_holds, Fcgi.C15.C15Clause3_holds, Fcgi.C15.C15Clause4_holds, Fcgi.C15.C15Clause5_holds, Fcgi.C15.C15Clause6_holds⟩
+    Fcgi.C15.C15Clause6 ∧
+    Fcgi.C15.C15Clause7 :=
+  ⟨Fcgi.C15.C15Clause1_holds, Fcgi.C15.C15Clause2_holds, Fcgi.C15.C15Clause3_holds, Fcgi.C15.C15Clause4_holds, Fcgi.C15.C15Clause5_holds, Fcgi.C15.C15Clause6_holds, Fcgi.C15.C15Clause7_holds⟩
 end Fcgi.Headline
 
 
@@ -3034,18 +3799,26 @@ end Fcgi.Headline
 > number of pairs never exceeds the size hint.
 
 **Clause by clause.**
-* “round trip / reported count” — Clauses 1–2.
-* “arbitrary bytes: complete sub-slices, stops for good, undecoded suffix, prefix monotonicity, size hint” —
-  Clauses 3–7.
+* “round trip / reported count” — Clause 1 (about the spec encoder `NV.enc`), Clause 2 (if `write` succeeds
+  its output is `enc` and the count is its length), Clause 9 (`write` on a `Vec` does succeed).
+* “arbitrary bytes: complete sub-slices, stops for good, undecoded suffix, prefix monotonicity, size hint,
+  never panics” — Clauses 3–8, 10: sub-slices (Clause 3), `next` on the rest is `none` (Clause 4: 'for good'
+  by the model convention that `none` carries no new state), the rest is EXACTLY the undecoded suffix
+  (Clauses 5–6: the iterator unfolded), prefix monotonicity (7), size hint (8), all index guards hold (10).
 
 **The conjuncts of `C16_headline`.**
 1. `C16.roundtrip` — decoding the concatenated encodings yields the pairs, nothing left
 2. `C16.write_count` — the encoder reports exactly the bytes it wrote
-3. `C16.subslices` — decoded pairs are consecutive sub-slices of the input
+3. `C16.subslices` — decoded pairs are consecutive sub-slices of the input (behind a 2/5/8-byte length
+   header)
 4. `C16.stops_for_good` — the decoder stops for good at the first incomplete pair
-5. `C16.rest_suffix` — … and hands back exactly the undecoded suffix
-6. `C16.prefix_mono` — pairs of a prefix are a prefix of the pairs of the whole
-7. `C16.size_hint` — the number of pairs never exceeds the size hint
+5. `C16.all_some` — the iterator unfolded: a complete pair is yielded and the rest is iterated — with
+   `all_none` this pins `(all bs).2` to exactly the undecoded suffix
+6. `C16.all_none` — … and stops with the whole remaining input handed back when the next pair is incomplete
+7. `C16.prefix_mono` — pairs of a prefix are a prefix of the pairs of the whole
+8. `C16.size_hint` — the number of pairs never exceeds the size hint
+9. `C16.write_vec` — the encoder succeeds on a `Vec` and writes exactly `enc`
+10. `C16.nextGuards_true` — never panics: every index guard of the decoder holds
 
 **Modelling assumptions (obligations.json).**
 * usize is 64 bit (checked_add cannot overflow)
@@ -3056,7 +3829,6 @@ end Fcgi.Headline
 **Not proved as theorems — carried by the differential run + oracle, or trusted.**
 * 'the shared and mutable variants agree' is established by the differential run (one generic Rust function,
   one model)
-* the decoder never panics: total function + differential run
 
 -/
 
@@ -3095,7 +3867,7 @@ end
 section
 namespace Fcgi.C16
 open Fcgi Fcgi.VarInt
-/-- decoded pairs are consecutive sub-slices of the input  (= `Fcgi.C16.subslices`, `Props/C16.lean`) -/
+/-- decoded pairs are consecutive sub-slices of the input (behind a 2/5/8-byte length header)  (= `Fcgi.C16.subslices`, `Props/C16.lean`) -/
 def C16Clause3 : Prop :=
   ∀ {bs n v r : Bytes} (h : NV.next bs = some ((n, v), r)),
     ∃ hd, bs = hd ++ n ++ v ++ r ∧ (hd.length = 2 ∨ hd.length = 5 ∨ hd.length = 8)
@@ -3125,14 +3897,29 @@ end
 section
 namespace Fcgi.C16
 open Fcgi Fcgi.VarInt
-/-- … and hands back exactly the undecoded suffix  (= `Fcgi.C16.rest_suffix`, `Props/C16.lean`) -/
+/-- the iterator unfolded: a complete pair is yielded and the rest is iterated — with `all_none` this pins `(all bs).2` to exactly the undecoded suffix  (= `Fcgi.C16.all_some`, `Props/C16.lean`) -/
 def C16Clause5 : Prop :=
-  ∀ (bs : Bytes),
-    ∃ c, bs = c ++ (NV.all bs).2
+  ∀ {bs r : Bytes} {p : Bytes × Bytes} (h : NV.next bs = some (p, r)),
+    NV.all bs = (p :: (NV.all r).1, (NV.all r).2)
 
 theorem C16Clause5_holds : C16Clause5 := by
   unfold C16Clause5
-  exact @rest_suffix
+  exact @all_some
+
+end Fcgi.C16
+end
+
+section
+namespace Fcgi.C16
+open Fcgi Fcgi.VarInt
+/-- … and stops with the whole remaining input handed back when the next pair is incomplete  (= `Fcgi.C16.all_none`, `Props/C16.lean`) -/
+def C16Clause6 : Prop :=
+  ∀ {bs : Bytes} (h : NV.next bs = none),
+    NV.all bs = ([], bs)
+
+theorem C16Clause6_holds : C16Clause6 := by
+  unfold C16Clause6
+  exact @all_none
 
 end Fcgi.C16
 end
@@ -3141,12 +3928,12 @@ section
 namespace Fcgi.C16
 open Fcgi Fcgi.VarInt
 /-- pairs of a prefix are a prefix of the pairs of the whole  (= `Fcgi.C16.prefix_mono`, `Props/C16.lean`) -/
-def C16Clause6 : Prop :=
+def C16Clause7 : Prop :=
   ∀ (a b : Bytes),
     (NV.all a).1 <+: (NV.all (a ++ b)).1
 
-theorem C16Clause6_holds : C16Clause6 := by
-  unfold C16Clause6
+theorem C16Clause7_holds : C16Clause7 := by
+  unfold C16Clause7
   exact @prefix_mono
 
 end Fcgi.C16
@@ -3156,13 +3943,44 @@ section
 namespace Fcgi.C16
 open Fcgi Fcgi.VarInt
 /-- the number of pairs never exceeds the size hint  (= `Fcgi.C16.size_hint`, `Props/C16.lean`) -/
-def C16Clause7 : Prop :=
+def C16Clause8 : Prop :=
   ∀ (bs : Bytes),
     (NV.all bs).1.length ≤ NV.sizeHint bs
 
-theorem C16Clause7_holds : C16Clause7 := by
-  unfold C16Clause7
+theorem C16Clause8_holds : C16Clause8 := by
+  unfold C16Clause8
   exact @size_hint
+
+end Fcgi.C16
+end
+
+section
+namespace Fcgi.C16
+open Fcgi Fcgi.VarInt
+/-- the encoder succeeds on a `Vec` and writes exactly `enc`  (= `Fcgi.C16.write_vec`, `Props/C16.lean`) -/
+def C16Clause9 : Prop :=
+  ∀ (n v pre : Bytes) (hn : n.length ≤ maxVal) (hv : v.length ≤ maxVal),
+    NV.write n v (Sink.vec pre) =
+      ({ cap := none, out := pre ++ NV.enc (n, v) }, .ok (NV.enc (n, v)).length)
+
+theorem C16Clause9_holds : C16Clause9 := by
+  unfold C16Clause9
+  exact @write_vec
+
+end Fcgi.C16
+end
+
+section
+namespace Fcgi.C16
+open Fcgi Fcgi.VarInt
+/-- never panics: every index guard of the decoder holds  (= `Fcgi.C16.nextGuards_true`, `Props/C16.lean`) -/
+def C16Clause10 : Prop :=
+  ∀ (bs : Bytes),
+    NV.nextGuards bs = true
+
+theorem C16Clause10_holds : C16Clause10 := by
+  unfold C16Clause10
+  exact @nextGuards_true
 
 end Fcgi.C16
 end
@@ -3176,8 +3994,11 @@ theorem C16_headline :
     Fcgi.C16.C16Clause4 ∧
     Fcgi.C16.C16Clause5 ∧
     Fcgi.C16.C16Clause6 ∧
-    Fcgi.C16.C16Clause7 :=
-  ⟨Fcgi.C16.C16Clause1_holds, Fcgi.C16.C16Clause2_holds, Fcgi.C16.C16Clause3_holds, Fcgi.C16.C16Clause4_holds, Fcgi.C16.C16Clause5_holds, Fcgi.C16.C16Clause6_holds, Fcgi.C16.C16Clause7_holds⟩
+    Fcgi.C16.C16Clause7 ∧
+    Fcgi.C16.C16Clause8 ∧
+    Fcgi.C16.C16Clause9 ∧
+    Fcgi.C16.C16Clause10 :=
+  ⟨Fcgi.C16.C16Clause1_holds, Fcgi.C16.C16Clause2_holds, Fcgi.C16.C16Clause3_holds, Fcgi.C16.C16Clause4_holds, Fcgi.C16.C16Clause5_holds, Fcgi.C16.C16Clause6_holds, Fcgi.C16.C16Clause7_holds, Fcgi.C16.C16Clause8_holds, Fcgi.C16.C16Clause9_holds, Fcgi.C16.C16Clause10_holds⟩
 end Fcgi.Headline
 
 
@@ -3196,21 +4017,34 @@ end Fcgi.Headline
 > stream followed by that EndRequest, all with the request's id.
 
 **Clause by clause.**
-* “headers and bodies round trip / re-encode / reject exactly” — Clauses 1–5 (Unknown type: `unknown_*`;
-  whole-record encoders: `*_toRecord`).
+* “headers and bodies round trip / re-encode / reject exactly” — Header: Clauses 1–3; BeginRequest: Clauses
+  4, 9, 10; EndRequest: Clauses 5, 11, 12 (Unknown type and the whole-record encoders: `unknown_*`,
+  `*_toRecord`, registered).
 * “padding” — Clause 6.
-* “GetValuesResult” — Clause 7 (`writeResponse_spec`; length bound: `writeResponse_le_responseLen`).
-* “exit status mapping and the end-of-request sequence” — Clause 8 (`epilogue_spec`).
+* “GetValuesResult” — Clause 7 (one well-formed record, length bound, appended — on a closed-form model of
+  reserve/write/pad/back-patch) and Clause 14 (the values: connection limit for both limits, 0 for
+  multiplexing).
+* “exit status mapping and the end-of-request sequence” — Clause 13 (`exit_mapping`: the values) and Clause
+  8 (`epilogue_spec`: the sequence).
 
 **The conjuncts of `C17_headline`.**
 1. `C17.header_roundtrip` — header: decode ∘ encode = id
 2. `C17.header_reencode` — every 8 bytes that decode re-encode to themselves apart from reserved bytes
 3. `C17.header_reject_iff` — rejected exactly: unknown version (first), unknown type
-4. `C17.begin_roundtrip` — BeginRequest body
-5. `C17.end_roundtrip` — EndRequest body
+4. `C17.begin_roundtrip` — BeginRequest body: round trip
+5. `C17.end_roundtrip` — EndRequest body: round trip
 6. `C17.padding_rule` — automatic padding < 8, content + padding multiple of 8
-7. `C17.writeResponse_spec` — GetValuesResult: one well-formed record, exactly the requested variables
-8. `C17.epilogue_spec` — exit status mapping and the end-of-request sequence
+7. `C17.writeResponse_spec` — GetValuesResult: ONE well-formed management record, ≤ the advertised maximum,
+   appended after existing contents (stated on the closed-form model; which variables/values: Clause 14)
+8. `C17.epilogue_spec` — the end-of-request sequence: one empty record per output stream, then EndRequest,
+   all with the request's id (status VALUES: Clause 13)
+9. `C17.begin_reject_iff` — BeginRequest: rejected exactly
+10. `C17.begin_reencode` — BeginRequest: re-encode
+11. `C17.end_reject_iff` — EndRequest: rejected exactly
+12. `C17.end_reencode` — EndRequest: re-encode
+13. `C17.exit_mapping` — every exit status maps to the documented protocol and application status
+14. `HeadlineExtra.C17_var_values` — the queryable variables: MAX_CONNS and MAX_REQS = the configured limit,
+   MPXS_CONNS = 0
 
 **Modelling assumptions (obligations.json).**
 * bitflags iter_names yields contained flags in declaration order (modelled external)
@@ -3220,7 +4054,8 @@ end Fcgi.Headline
 
 **Not proved as theorems — carried by the differential run + oracle, or trusted.**
 * `make_request_epilogue` is pub(crate): tied to the code through `Request::close` in the async checks
-* bitflags `iter_names` order and decimal rendering are modelled externals
+* bitflags `iter_names` order and decimal rendering are modelled externals (`decimal` has no parse-back
+  theorem)
 
 -/
 
@@ -3282,7 +4117,7 @@ end
 section
 namespace Fcgi.C17
 open Fcgi Fcgi.Proofs.Header
-/-- BeginRequest body  (= `Fcgi.C17.begin_roundtrip`, `Props/C17.lean`) -/
+/-- BeginRequest body: round trip  (= `Fcgi.C17.begin_roundtrip`, `Props/C17.lean`) -/
 def C17Clause4 : Prop :=
   ∀ (b : BeginRequest) (hr : 1 ≤ b.role ∧ b.role ≤ 3) (rest : Bytes),
     BeginRequest.fromBytes (b.toBytes ++ rest) = some (.ok b)
@@ -3297,7 +4132,7 @@ end
 section
 namespace Fcgi.C17
 open Fcgi Fcgi.Proofs.Header
-/-- EndRequest body  (= `Fcgi.C17.end_roundtrip`, `Props/C17.lean`) -/
+/-- EndRequest body: round trip  (= `Fcgi.C17.end_roundtrip`, `Props/C17.lean`) -/
 def C17Clause5 : Prop :=
   ∀ (e : EndRequest) (ha : e.appStatus < 4294967296) (hs : e.protocolStatus ≤ 3)
     (rest : Bytes),
@@ -3328,7 +4163,7 @@ end
 section
 namespace Fcgi.C17
 open Fcgi Fcgi.Proofs.Header
-/-- GetValuesResult: one well-formed record, exactly the requested variables  (= `Fcgi.C17.writeResponse_spec`, `Props/C17.lean`) -/
+/-- GetValuesResult: ONE well-formed management record, ≤ the advertised maximum, appended after existing contents (stated on the closed-form model; which variables/values: Clause 14)  (= `Fcgi.C17.writeResponse_spec`, `Props/C17.lean`) -/
 def C17Clause7 : Prop :=
   ∀ (set maxConns : Nat) (_hset : set < 8) (_hpos : 0 < maxConns)
     (hlt : maxConns < 2 ^ 64) (pre : Bytes),
@@ -3355,7 +4190,7 @@ end
 section
 namespace Fcgi.C17
 open Fcgi Fcgi.Proofs.Header
-/-- exit status mapping and the end-of-request sequence  (= `Fcgi.C17.epilogue_spec`, `Props/C17.lean`) -/
+/-- the end-of-request sequence: one empty record per output stream, then EndRequest, all with the request's id (status VALUES: Clause 13)  (= `Fcgi.C17.epilogue_spec`, `Props/C17.lean`) -/
 def C17Clause8 : Prop :=
   ∀ (id : Nat) (st : ExitStatus) (streams : List Nat),
     makeRequestEpilogue id st streams =
@@ -3370,6 +4205,110 @@ theorem C17Clause8_holds : C17Clause8 := by
 end Fcgi.C17
 end
 
+section
+namespace Fcgi.C17
+open Fcgi Fcgi.Proofs.Header
+/-- BeginRequest: rejected exactly  (= `Fcgi.C17.begin_reject_iff`, `Props/C17.lean`) -/
+def C17Clause9 : Prop :=
+  ∀ (d0 d1 d2 d3 d4 d5 d6 d7 : UInt8) (rest : Bytes),
+    let r := BeginRequest.fromBytes (d0 :: d1 :: d2 :: d3 :: d4 :: d5 :: d6 :: d7 :: rest)
+    (r = some (.error (.unknownRole (be16 d0 d1))) ↔ ¬(1 ≤ be16 d0 d1 ∧ be16 d0 d1 ≤ 3)) ∧
+    (r = some (.ok { role := be16 d0 d1, flags := d2 }) ↔ 1 ≤ be16 d0 d1 ∧ be16 d0 d1 ≤ 3) ∧
+    ((∃ e, r = some (.error e)) ↔ ¬(1 ≤ be16 d0 d1 ∧ be16 d0 d1 ≤ 3))
+
+theorem C17Clause9_holds : C17Clause9 := by
+  unfold C17Clause9
+  exact @begin_reject_iff
+
+end Fcgi.C17
+end
+
+section
+namespace Fcgi.C17
+open Fcgi Fcgi.Proofs.Header
+/-- BeginRequest: re-encode  (= `Fcgi.C17.begin_reencode`, `Props/C17.lean`) -/
+def C17Clause10 : Prop :=
+  ∀ (d0 d1 d2 d3 d4 d5 d6 d7 : UInt8) (rest : Bytes) (b : BeginRequest)
+    (hd : BeginRequest.fromBytes (d0 :: d1 :: d2 :: d3 :: d4 :: d5 :: d6 :: d7 :: rest) = some (.ok b)),
+    b.toBytes = [d0, d1, d2, 0, 0, 0, 0, 0]
+
+theorem C17Clause10_holds : C17Clause10 := by
+  unfold C17Clause10
+  exact @begin_reencode
+
+end Fcgi.C17
+end
+
+section
+namespace Fcgi.C17
+open Fcgi Fcgi.Proofs.Header
+/-- EndRequest: rejected exactly  (= `Fcgi.C17.end_reject_iff`, `Props/C17.lean`) -/
+def C17Clause11 : Prop :=
+  ∀ (d0 d1 d2 d3 d4 d5 d6 d7 : UInt8) (rest : Bytes),
+    let r := EndRequest.fromBytes (d0 :: d1 :: d2 :: d3 :: d4 :: d5 :: d6 :: d7 :: rest)
+    (r = some (.error (.unknownStatus d4)) ↔ ¬(d4.toNat ≤ 3)) ∧
+    (r = some (.ok { appStatus := be32 d0 d1 d2 d3, protocolStatus := d4.toNat }) ↔ d4.toNat ≤ 3) ∧
+    ((∃ e, r = some (.error e)) ↔ ¬(d4.toNat ≤ 3))
+
+theorem C17Clause11_holds : C17Clause11 := by
+  unfold C17Clause11
+  exact @end_reject_iff
+
+end Fcgi.C17
+end
+
+section
+namespace Fcgi.C17
+open Fcgi Fcgi.Proofs.Header
+/-- EndRequest: re-encode  (= `Fcgi.C17.end_reencode`, `Props/C17.lean`) -/
+def C17Clause12 : Prop :=
+  ∀ (d0 d1 d2 d3 d4 d5 d6 d7 : UInt8) (rest : Bytes) (e : EndRequest)
+    (hd : EndRequest.fromBytes (d0 :: d1 :: d2 :: d3 :: d4 :: d5 :: d6 :: d7 :: rest) = some (.ok e)),
+    e.toBytes = [d0, d1, d2, d3, d4, 0, 0, 0]
+
+theorem C17Clause12_holds : C17Clause12 := by
+  unfold C17Clause12
+  exact @end_reencode
+
+end Fcgi.C17
+end
+
+section
+namespace Fcgi.C17
+open Fcgi Fcgi.Proofs.Header
+/-- every exit status maps to the documented protocol and application status  (= `Fcgi.C17.exit_mapping`, `Props/C17.lean`) -/
+def C17Clause13 : Prop :=
+  ∀ (c : Nat),
+    (ExitStatus.complete c).toEndRequest = ⟨c, 0⟩ ∧
+    ExitStatus.overloaded.toEndRequest = ⟨0, 2⟩ ∧
+    ExitStatus.unknownRole.toEndRequest = ⟨0, 3⟩ ∧
+    ExitStatus.abort.toEndRequest = ⟨1094865492, 0⟩
+
+theorem C17Clause13_holds : C17Clause13 := by
+  unfold C17Clause13
+  exact @exit_mapping
+
+end Fcgi.C17
+end
+
+section
+namespace Fcgi.Headline
+open Fcgi
+
+/-- the queryable variables: MAX_CONNS and MAX_REQS = the configured limit, MPXS_CONNS = 0  (`HeadlineExtra.C17_var_values`) -/
+def C17Clause14 : Prop :=
+  ∀ (m : Nat),
+    Vars.value 1 m = decimal m ∧ Vars.value 2 m = decimal m ∧ Vars.value 4 m = [48] ∧
+    Vars.table = [("FCGI_MAX_CONNS".toUTF8.toList, 1), ("FCGI_MAX_REQS".toUTF8.toList, 2),
+      ("FCGI_MPXS_CONNS".toUTF8.toList, 4)]
+
+theorem C17Clause14_holds : C17Clause14 := by
+  unfold C17Clause14
+  intro m
+  refine ⟨by simp [Vars.value], by simp [Vars.value], by simp [Vars.value], rfl⟩
+end Fcgi.Headline
+end
+
 namespace Fcgi.Headline
 /-- **C17** — see the section comment above for the clause-by-clause reading. -/
 theorem C17_headline :
@@ -3380,8 +4319,14 @@ theorem C17_headline :
     Fcgi.C17.C17Clause5 ∧
     Fcgi.C17.C17Clause6 ∧
     Fcgi.C17.C17Clause7 ∧
-    Fcgi.C17.C17Clause8 :=
-  ⟨Fcgi.C17.C17Clause1_holds, Fcgi.C17.C17Clause2_holds, Fcgi.C17.C17Clause3_holds, Fcgi.C17.C17Clause4_holds, Fcgi.C17.C17Clause5_holds, Fcgi.C17.C17Clause6_holds, Fcgi.C17.C17Clause7_holds, Fcgi.C17.C17Clause8_holds⟩
+    Fcgi.C17.C17Clause8 ∧
+    Fcgi.C17.C17Clause9 ∧
+    Fcgi.C17.C17Clause10 ∧
+    Fcgi.C17.C17Clause11 ∧
+    Fcgi.C17.C17Clause12 ∧
+    Fcgi.C17.C17Clause13 ∧
+    Fcgi.Headline.C17Clause14 :=
+  ⟨Fcgi.C17.C17Clause1_holds, Fcgi.C17.C17Clause2_holds, Fcgi.C17.C17Clause3_holds, Fcgi.C17.C17Clause4_holds, Fcgi.C17.C17Clause5_holds, Fcgi.C17.C17Clause6_holds, Fcgi.C17.C17Clause7_holds, Fcgi.C17.C17Clause8_holds, Fcgi.C17.C17Clause9_holds, Fcgi.C17.C17Clause10_holds, Fcgi.C17.C17Clause11_holds, Fcgi.C17.C17Clause12_holds, Fcgi.C17.C17Clause13_holds, Fcgi.Headline.C17Clause14_holds⟩
 end Fcgi.Headline
 
 
@@ -3397,23 +4342,39 @@ end Fcgi.Headline
 
 **Clause by clause.**
 * “starts at the first stream of its role and can only move forward, or to 'none', permanently” — Clauses 1,
-  5, 6.
-* “rejected selections change nothing; re-selecting keeps buffered data” — Clauses 2–4.
-* “data of other streams is never delivered; the first record of a later stream is held back and reported as
-  the end” — Clauses 7–8.
+  5, 6, 12.
+* “attempts to select a stream outside the role or earlier are rejected and change nothing; re-selecting
+  keeps buffered data” — Clauses 2–4 ('changes nothing': `Err(SequenceError)` carries no parser).
+* “data of streams other than the active one is never delivered: earlier or foreign streams are skipped, and
+  the first record of a later stream is held back and reported as the end of the current stream until the
+  caller advances” — Clauses 7–8 (one loop iteration / `parse_head`: only a non-empty record of the ACTIVE
+  stream of THIS request starts delivery), Clauses 9–11 (the held-back header: not consumed, `stream_end`
+  again on every later `parse` without new input, kept across consume/compress).  History level ('only the
+  active stream's payload is ever delivered'): `C03SI.prefix_sim`, C02 Clause 1.
 
 **The conjuncts of `C18_headline`.**
-1. `C18.fromParser_stream` — the active stream starts at the first stream of the role
+1. `C18.fromParser_stream` — the active stream starts at the first stream of the role (by definition of
+   `from_parser`)
 2. `C18.setStream_accept_iff` — a selection is accepted iff it is the current stream, a later one of the
    role, or none
-3. `C18.setStream_rejected_unchanged` — a rejected selection changes nothing
+3. `C18.setStream_rejected_unchanged` — `set_stream` either returns `Ok` with the parser unchanged or
+   switched, or `Err(SequenceError)` — which carries no parser (`&mut self` untouched) —, or hits the debug
+   assertion
 4. `C18.setStream_same_keeps` — re-selecting the current stream keeps buffered data
 5. `C18.active_mono_trace` — over any history the active stream only moves forward
 6. `C18.none_absorbing` — … and `none` is permanent
-7. `C18.only_active_delivered` — only data of the active stream is delivered: a payload step outside the
-   `stream` state delivers nothing
-8. `C18.held_back_persists` — the first record of a later stream is held back and reported as end-of-stream
-   until the caller advances
+7. `C18.iter_only_active` — a whole loop iteration delivers stream data only if it starts in state `Stream`
+   with payload outstanding: records of other streams/requests, management records and padding are never
+   delivered
+8. `C18.head_activates` — `parse_head` enters state `Stream` only for a NON-EMPTY record of the ACTIVE
+   stream of this request
+9. `C18.held_back` — when `stream_end` is raised the header is NOT consumed: it is the empty record of the
+   active stream or a record of a strictly LATER stream of this request
+10. `C18.held_back_repeats` — … and every later `parse` without new input reports `stream_end` again,
+   delivers nothing, leaves the parser as it is
+11. `C18.held_back_persists` — … also across `consume_stream` / `compress` / `consume_output` (HeldBack
+   under NEW input: no theorem)
+12. `C18.setStream_none_ok` — `set_stream(None)` is always accepted
 
 **Modelling assumptions (obligations.json).**
 * set_stream(Some(non-input-stream type)) while a stream is active hits a debug assertion in
@@ -3422,6 +4383,7 @@ end Fcgi.Headline
 
 **Not proved as theorems — carried by the differential run + oracle, or trusted.**
 * `set_stream(Some(non-input type))` hits a debug assertion: modelled as the panic it is in debug builds
+* HeldBack under `parse` with NEW input: no theorem (differential run)
 
 -/
 
@@ -3429,7 +4391,7 @@ section
 namespace Fcgi.C18
 open Fcgi Fcgi.Str
 open Fcgi.Req (Request PErr)
-/-- the active stream starts at the first stream of the role  (= `Fcgi.C18.fromParser_stream`, `Props/C18.lean`) -/
+/-- the active stream starts at the first stream of the role (by definition of `from_parser`)  (= `Fcgi.C18.fromParser_stream`, `Props/C18.lean`) -/
 def C18Clause1 : Prop :=
   ∀ (cap : Nat) (req : Request) (input : Bytes) (mc : Nat),
     (Parser.fromParser cap req input mc).stream = nextInputStream req.role none
@@ -3464,7 +4426,7 @@ section
 namespace Fcgi.C18
 open Fcgi Fcgi.Str
 open Fcgi.Req (Request PErr)
-/-- a rejected selection changes nothing  (= `Fcgi.C18.setStream_rejected_unchanged`, `Props/C18.lean`) -/
+/-- `set_stream` either returns `Ok` with the parser unchanged or switched, or `Err(SequenceError)` — which carries no parser (`&mut self` untouched) —, or hits the debug assertion  (= `Fcgi.C18.setStream_rejected_unchanged`, `Props/C18.lean`) -/
 def C18Clause3 : Prop :=
   ∀ (p : Parser) (st : Option Nat),
     (∃ p', p.setStream st = .ok p' ∧ (p' = p ∨ p' = p.switchTo st)) ∨
@@ -3531,15 +4493,15 @@ section
 namespace Fcgi.C18
 open Fcgi Fcgi.Str
 open Fcgi.Req (Request PErr)
-/-- only data of the active stream is delivered: a payload step outside the `stream` state delivers nothing  (= `Fcgi.C18.only_active_delivered`, `Props/C18.lean`) -/
+/-- a whole loop iteration delivers stream data only if it starts in state `Stream` with payload outstanding: records of other streams/requests, management records and padding are never delivered  (= `Fcgi.C18.iter_only_active`, `Props/C18.lean`) -/
 def C18Clause7 : Prop :=
   ∀ (p : Parser) (dest : Option Nat) (res : Status)
-    (hs : p.state ≠ .stream),
-    StepNoData p dest res (parsePayload p dest res)
+    (hs : p.state ≠ .stream ∨ p.pay = 0),
+    StepNoData p dest res (iter p dest res)
 
 theorem C18Clause7_holds : C18Clause7 := by
   unfold C18Clause7
-  exact @only_active_delivered
+  exact @iter_only_active
 
 end Fcgi.C18
 end
@@ -3548,15 +4510,92 @@ section
 namespace Fcgi.C18
 open Fcgi Fcgi.Str
 open Fcgi.Req (Request PErr)
-/-- the first record of a later stream is held back and reported as end-of-stream until the caller advances  (= `Fcgi.C18.held_back_persists`, `Props/C18.lean`) -/
+/-- `parse_head` enters state `Stream` only for a NON-EMPTY record of the ACTIVE stream of this request  (= `Fcgi.C18.head_activates`, `Props/C18.lean`) -/
 def C18Clause8 : Prop :=
+  ∀ {p p' : Parser} {dest d' : Option Nat} {res r' : Status} (hinv : SInv p)
+    (h : parseHead p dest res = .cont p' d' r') (hs : p'.state = .stream),
+    ∃ b0 b1 b2 b3 b4 b5 b6 b7 rest head,
+      p.raw = b0 :: b1 :: b2 :: b3 :: b4 :: b5 :: b6 :: b7 :: rest ∧
+      RecordHeader.fromBytes [b0, b1, b2, b3, b4, b5, b6, b7] = some (.ok head) ∧
+      p.stream = some head.rtype ∧ head.requestId = p.request.id ∧ head.contentLength ≠ 0 ∧
+      p'.pay = head.contentLength ∧ p'.pad = head.paddingLength ∧ p'.raw = rest
+
+theorem C18Clause8_holds : C18Clause8 := by
+  unfold C18Clause8
+  exact @head_activates
+
+end Fcgi.C18
+end
+
+section
+namespace Fcgi.C18
+open Fcgi Fcgi.Str
+open Fcgi.Req (Request PErr)
+/-- when `stream_end` is raised the header is NOT consumed: it is the empty record of the active stream or a record of a strictly LATER stream of this request  (= `Fcgi.C18.held_back`, `Props/C18.lean`) -/
+def C18Clause9 : Prop :=
+  ∀ {p p' : Parser} {dest : Option Nat} {res res' : Status} (hinv : SInv p)
+    (h : parseHead p dest res = .stop p' res') (h1 : res'.streamEnd = true)
+    (h0 : res.streamEnd = false),
+    p' = p ∧ res' = { res with streamEnd := true } ∧ HeldBack p ∧
+    ∃ b0 b1 b2 b3 b4 b5 b6 b7 rest head e,
+      p.raw = b0 :: b1 :: b2 :: b3 :: b4 :: b5 :: b6 :: b7 :: rest ∧
+      RecordHeader.fromBytes [b0, b1, b2, b3, b4, b5, b6, b7] = some (.ok head) ∧
+      head.requestId = p.request.id ∧ p.stream = some e ∧
+      ((head.rtype = e ∧ head.contentLength = 0) ∨ Later p.request.role (some e) head.rtype)
+
+theorem C18Clause9_holds : C18Clause9 := by
+  unfold C18Clause9
+  exact @held_back
+
+end Fcgi.C18
+end
+
+section
+namespace Fcgi.C18
+open Fcgi Fcgi.Str
+open Fcgi.Req (Request PErr)
+/-- … and every later `parse` without new input reports `stream_end` again, delivers nothing, leaves the parser as it is  (= `Fcgi.C18.held_back_repeats`, `Props/C18.lean`) -/
+def C18Clause10 : Prop :=
+  ∀ {p : Parser} (hinv : SInv p) (hb : p.isRecordBoundary = true)
+    (h : HeldBack p) (dest : Option Nat) (hd : dest = none ∨ p.parsed = []),
+    p.parse [] dest = (p, .ok { stream := 0, streamEnd := true, output := 0, delivered := [] })
+
+theorem C18Clause10_holds : C18Clause10 := by
+  unfold C18Clause10
+  exact @held_back_repeats
+
+end Fcgi.C18
+end
+
+section
+namespace Fcgi.C18
+open Fcgi Fcgi.Str
+open Fcgi.Req (Request PErr)
+/-- … also across `consume_stream` / `compress` / `consume_output` (HeldBack under NEW input: no theorem)  (= `Fcgi.C18.held_back_persists`, `Props/C18.lean`) -/
+def C18Clause11 : Prop :=
   ∀ {p : Parser} (hb : p.isRecordBoundary = true) (h : HeldBack p)
     (op : Op) (hop : (∃ n, op = .consumeStream n) ∨ op = .compress ∨ ∃ n, op = .consumeOutput n),
     (applyOp p op).isRecordBoundary = true ∧ HeldBack (applyOp p op)
 
-theorem C18Clause8_holds : C18Clause8 := by
-  unfold C18Clause8
+theorem C18Clause11_holds : C18Clause11 := by
+  unfold C18Clause11
   exact @held_back_persists
+
+end Fcgi.C18
+end
+
+section
+namespace Fcgi.C18
+open Fcgi Fcgi.Str
+open Fcgi.Req (Request PErr)
+/-- `set_stream(None)` is always accepted  (= `Fcgi.C18.setStream_none_ok`, `Props/C18.lean`) -/
+def C18Clause12 : Prop :=
+  ∀ (p : Parser),
+    ∃ p', p.setStream none = .ok p'
+
+theorem C18Clause12_holds : C18Clause12 := by
+  unfold C18Clause12
+  exact @setStream_none_ok
 
 end Fcgi.C18
 end
@@ -3571,8 +4610,12 @@ theorem C18_headline :
     Fcgi.C18.C18Clause5 ∧
     Fcgi.C18.C18Clause6 ∧
     Fcgi.C18.C18Clause7 ∧
-    Fcgi.C18.C18Clause8 :=
-  ⟨Fcgi.C18.C18Clause1_holds, Fcgi.C18.C18Clause2_holds, Fcgi.C18.C18Clause3_holds, Fcgi.C18.C18Clause4_holds, Fcgi.C18.C18Clause5_holds, Fcgi.C18.C18Clause6_holds, Fcgi.C18.C18Clause7_holds, Fcgi.C18.C18Clause8_holds⟩
+    Fcgi.C18.C18Clause8 ∧
+    Fcgi.C18.C18Clause9 ∧
+    Fcgi.C18.C18Clause10 ∧
+    Fcgi.C18.C18Clause11 ∧
+    Fcgi.C18.C18Clause12 :=
+  ⟨Fcgi.C18.C18Clause1_holds, Fcgi.C18.C18Clause2_holds, Fcgi.C18.C18Clause3_holds, Fcgi.C18.C18Clause4_holds, Fcgi.C18.C18Clause5_holds, Fcgi.C18.C18Clause6_holds, Fcgi.C18.C18Clause7_holds, Fcgi.C18.C18Clause8_holds, Fcgi.C18.C18Clause9_holds, Fcgi.C18.C18Clause10_holds, Fcgi.C18.C18Clause11_holds, Fcgi.C18.C18Clause12_holds⟩
 end Fcgi.Headline
 
 
@@ -3588,19 +4631,25 @@ end Fcgi.Headline
 
 **Clause by clause.**
 * “equal exactly when equal ignoring ASCII case; total order consistent with it; hash identically” — Clauses
-  1–4.
-* “a map lookup by any spelling finds the entry” — Clause 5.
+  1–4, 9 (`cmp_swap`: antisymmetry/totality), 10 (`owned_cmp`: the owned order is the borrowed one).
+* “a map lookup by any spelling finds the entry” — Clause 5 (= the Eq/Hash/Ord contract for any two
+  constructors and spellings; maps themselves are not modelled).
 * “normalising constructors, interned names, HTTP header names” — Clauses 6–8.
 
 **The conjuncts of `C19_headline`.**
 1. `C19.owned_eq_iff` — equal iff equal ignoring ASCII case, whichever constructor/representation
 2. `C19.owned_cmp_eq_iff` — the order is consistent with that equality
-3. `C19.cmp_trans` — … and transitive (total order)
+3. `C19.cmp_trans` — ≤-transitivity of the borrowed order
 4. `C19.owned_hash_congr` — equal names hash identically
 5. `C19.lookup_any_spelling` — a map lookup by any spelling finds the entry
-6. `C19.ctor_upper_asRef` — normalising constructors yield the ASCII-uppercased string
-7. `C19.static_reads_canonical` — interned names read back as their canonical spelling
+6. `C19.ctor_upper_asRef` — every constructor preserves the uppercased string: `upper (c.apply s).asRef =
+   upper s` (the normalising ones yield it literally: `fromCompact_asRef`, `fromStr_asRef`)
+7. `C19.static_reads_canonical` — interned names read back as their canonical spelling (by definition of the
+   table)
 8. `C19.header_name_map` — HTTP header name ↦ HTTP_ ++ uppercased, dashes to underscores
+9. `C19.cmp_swap` — antisymmetry/totality: swapping the arguments swaps the outcome
+10. `C19.owned_cmp` — the owned order (incl. the Static×Static fast path) IS the case-insensitive order of
+   the strings
 
 **Modelling assumptions (obligations.json).**
 * strum EnumString/IntoStaticStr = exact lookup in the generated table (confirmed against the compiled crate
@@ -3648,7 +4697,7 @@ end
 section
 namespace Fcgi.C19
 open Fcgi Fcgi.CgiName
-/-- … and transitive (total order)  (= `Fcgi.C19.cmp_trans`, `Props/C19.lean`) -/
+/-- ≤-transitivity of the borrowed order  (= `Fcgi.C19.cmp_trans`, `Props/C19.lean`) -/
 def C19Clause3 : Prop :=
   ∀ (a b c : Bytes) (h1 : CgiName.cmp a b ≠ .gt) (h2 : CgiName.cmp b c ≠ .gt),
     CgiName.cmp a c ≠ .gt
@@ -3695,7 +4744,7 @@ end
 section
 namespace Fcgi.C19
 open Fcgi Fcgi.CgiName
-/-- normalising constructors yield the ASCII-uppercased string  (= `Fcgi.C19.ctor_upper_asRef`, `Props/C19.lean`) -/
+/-- every constructor preserves the uppercased string: `upper (c.apply s).asRef = upper s` (the normalising ones yield it literally: `fromCompact_asRef`, `fromStr_asRef`)  (= `Fcgi.C19.ctor_upper_asRef`, `Props/C19.lean`) -/
 def C19Clause6 : Prop :=
   ∀ (c : Ctor) (s : Bytes),
     upper (c.apply s).asRef = upper s
@@ -3710,7 +4759,7 @@ end
 section
 namespace Fcgi.C19
 open Fcgi Fcgi.CgiName
-/-- interned names read back as their canonical spelling  (= `Fcgi.C19.static_reads_canonical`, `Props/C19.lean`) -/
+/-- interned names read back as their canonical spelling (by definition of the table)  (= `Fcgi.C19.static_reads_canonical`, `Props/C19.lean`) -/
 def C19Clause7 : Prop :=
   ∀ {i : Nat} (_h : i < CgiName.table.length),
     (CgiName.Owned.static i).asRef = CgiName.table.getD i []
@@ -3738,6 +4787,36 @@ theorem C19Clause8_holds : C19Clause8 := by
 end Fcgi.C19
 end
 
+section
+namespace Fcgi.C19
+open Fcgi Fcgi.CgiName
+/-- antisymmetry/totality: swapping the arguments swaps the outcome  (= `Fcgi.C19.cmp_swap`, `Props/C19.lean`) -/
+def C19Clause9 : Prop :=
+  ∀ (a b : Bytes),
+    CgiName.cmp b a = (CgiName.cmp a b).swap
+
+theorem C19Clause9_holds : C19Clause9 := by
+  unfold C19Clause9
+  exact @cmp_swap
+
+end Fcgi.C19
+end
+
+section
+namespace Fcgi.C19
+open Fcgi Fcgi.CgiName
+/-- the owned order (incl. the Static×Static fast path) IS the case-insensitive order of the strings  (= `Fcgi.C19.owned_cmp`, `Props/C19.lean`) -/
+def C19Clause10 : Prop :=
+  ∀ {x y : CgiName.Owned} (hx : WF x) (hy : WF y),
+    x.cmp y = CgiName.cmp x.asRef y.asRef
+
+theorem C19Clause10_holds : C19Clause10 := by
+  unfold C19Clause10
+  exact @owned_cmp
+
+end Fcgi.C19
+end
+
 namespace Fcgi.Headline
 /-- **C19** — see the section comment above for the clause-by-clause reading. -/
 theorem C19_headline :
@@ -3748,8 +4827,10 @@ theorem C19_headline :
     Fcgi.C19.C19Clause5 ∧
     Fcgi.C19.C19Clause6 ∧
     Fcgi.C19.C19Clause7 ∧
-    Fcgi.C19.C19Clause8 :=
-  ⟨Fcgi.C19.C19Clause1_holds, Fcgi.C19.C19Clause2_holds, Fcgi.C19.C19Clause3_holds, Fcgi.C19.C19Clause4_holds, Fcgi.C19.C19Clause5_holds, Fcgi.C19.C19Clause6_holds, Fcgi.C19.C19Clause7_holds, Fcgi.C19.C19Clause8_holds⟩
+    Fcgi.C19.C19Clause8 ∧
+    Fcgi.C19.C19Clause9 ∧
+    Fcgi.C19.C19Clause10 :=
+  ⟨Fcgi.C19.C19Clause1_holds, Fcgi.C19.C19Clause2_holds, Fcgi.C19.C19Clause3_holds, Fcgi.C19.C19Clause4_holds, Fcgi.C19.C19Clause5_holds, Fcgi.C19.C19Clause6_holds, Fcgi.C19.C19Clause7_holds, Fcgi.C19.C19Clause8_holds, Fcgi.C19.C19Clause9_holds, Fcgi.C19.C19Clause10_holds⟩
 end Fcgi.Headline
 
 
@@ -3763,29 +4844,44 @@ end Fcgi.Headline
 
 **Clause by clause.**
 * “the header writer / redirect writer emit exactly … and return the number of bytes” — Clauses 1–4.
-* “when the destination runs out of space they fail” — Clauses 5–6.
+* “when the destination runs out of space they fail” — Clauses 5–8 (`slice_ok_iff`: success EXACTLY when
+  everything fits).
 
 **The conjuncts of `C20_headline`.**
 1. `C20.headers_bytes` — the header writer emits exactly status line, one line per header, blank line
+   (`reason` is a free parameter: the code→reason table is a trusted external; header name `status` excluded,
+   see the remark)
 2. `C20.count_eq_len` — … and returns the number of bytes written
 3. `C20.redirect_bytes` — the redirect writer emits exactly a Location line and a blank line
 4. `C20.redirect_count_eq_len` — … and returns the number of bytes written
 5. `C20.short_dest_fails` — a destination too short makes the header writer fail
 6. `C20.redirect_short_dest_fails` — … and the redirect writer
+7. `C20.slice_ok_iff` — success on a slice happens EXACTLY when the whole output fits
+8. `C20.fits_ok` — … and then the output is exactly the bytes, count included
 
 **Modelling assumptions (obligations.json).**
 * std Write for Vec<u8>/&mut [u8] as in Model/Sink.lean
 * http::StatusCode::{as_str, canonical_reason} are trusted externals
+* documented precondition of write_headers: the header name `Status` (any letter case) must not occur in the
+  header list — 'verified by a debug assertion' (src/cgi/response.rs); the theorems quantify over header
+  lists, and 'every header list' of the property is read modulo this precondition; the harness (debug
+  assertions on) ch…
 
 **Not proved as theorems — carried by the differential run + oracle, or trusted.**
-* `http::StatusCode::{as_str, canonical_reason}` are trusted externals
+* REMARK (model/source discrepancy found by the review): `src/cgi/response.rs:81` has
+  `debug_assert!(!name.eq_ignore_ascii_case(b"status"))`; the model `Response.writeHeaders` has no such
+  panic, so for header lists containing a name `status` (any case) Clauses 1–2 claim success where a DEBUG
+  build panics — the clauses must be read with the precondition 'no header named Status' (the harness is a
+  release build)
+* `http::StatusCode::{as_str, canonical_reason}` are trusted externals; `reason` is a free parameter of the
+  clauses
 
 -/
 
 section
 namespace Fcgi.C20
 open Fcgi Fcgi.Response
-/-- the header writer emits exactly status line, one line per header, blank line  (= `Fcgi.C20.headers_bytes`, `Props/C20.lean`) -/
+/-- the header writer emits exactly status line, one line per header, blank line (`reason` is a free parameter: the code→reason table is a trusted external; header name `status` excluded, see the remark)  (= `Fcgi.C20.headers_bytes`, `Props/C20.lean`) -/
 def C20Clause1 : Prop :=
   ∀ (pre : Bytes) (code : Nat) (reason : Option Bytes) (hs : List (Bytes × Bytes)),
     Response.writeHeaders (Sink.vec pre) code reason hs =
@@ -3882,6 +4978,41 @@ theorem C20Clause6_holds : C20Clause6 := by
 end Fcgi.C20
 end
 
+section
+namespace Fcgi.C20
+open Fcgi Fcgi.Response
+/-- success on a slice happens EXACTLY when the whole output fits  (= `Fcgi.C20.slice_ok_iff`, `Props/C20.lean`) -/
+def C20Clause7 : Prop :=
+  ∀ (c code : Nat) (reason : Option Bytes) (hs : List (Bytes × Bytes)),
+    (Response.writeHeaders (Sink.slice c) code reason hs).2.isSome ↔
+      (headersOutput code reason hs).length ≤ c
+
+theorem C20Clause7_holds : C20Clause7 := by
+  unfold C20Clause7
+  exact @slice_ok_iff
+
+end Fcgi.C20
+end
+
+section
+namespace Fcgi.C20
+open Fcgi Fcgi.Response
+/-- … and then the output is exactly the bytes, count included  (= `Fcgi.C20.fits_ok`, `Props/C20.lean`) -/
+def C20Clause8 : Prop :=
+  ∀ (c code : Nat) (reason : Option Bytes) (hs : List (Bytes × Bytes))
+    (h : (headersOutput code reason hs).length ≤ c),
+    Response.writeHeaders (Sink.slice c) code reason hs =
+      ({ cap := some (c - (headersOutput code reason hs).length),
+         out := headersOutput code reason hs },
+        some (headersOutput code reason hs).length)
+
+theorem C20Clause8_holds : C20Clause8 := by
+  unfold C20Clause8
+  exact @fits_ok
+
+end Fcgi.C20
+end
+
 namespace Fcgi.Headline
 /-- **C20** — see the section comment above for the clause-by-clause reading. -/
 theorem C20_headline :
@@ -3890,6 +5021,8 @@ theorem C20_headline :
     Fcgi.C20.C20Clause3 ∧
     Fcgi.C20.C20Clause4 ∧
     Fcgi.C20.C20Clause5 ∧
-    Fcgi.C20.C20Clause6 :=
-  ⟨Fcgi.C20.C20Clause1_holds, Fcgi.C20.C20Clause2_holds, Fcgi.C20.C20Clause3_holds, Fcgi.C20.C20Clause4_holds, Fcgi.C20.C20Clause5_holds, Fcgi.C20.C20Clause6_holds⟩
+    Fcgi.C20.C20Clause6 ∧
+    Fcgi.C20.C20Clause7 ∧
+    Fcgi.C20.C20Clause8 :=
+  ⟨Fcgi.C20.C20Clause1_holds, Fcgi.C20.C20Clause2_holds, Fcgi.C20.C20Clause3_holds, Fcgi.C20.C20Clause4_holds, Fcgi.C20.C20Clause5_holds, Fcgi.C20.C20Clause6_holds, Fcgi.C20.C20Clause7_holds, Fcgi.C20.C20Clause8_holds⟩
 end Fcgi.Headline
